@@ -2,9 +2,11 @@
    Structure: (1) facts about the two receive loops and the timer loop of one poll;
    (2) a per-call invariant `Cfull c i now n x` (n = attempt tasks spawned by the poll in
    progress that have not run yet), preserved by every primitive of the model: a task sending
-   its result, a task starting, the script completing an inner call, cancellation, the clock,
-   and the poll itself in each phase; (3) the system invariant by induction over event lists
-   (Lib/Base.v reach_inv); (4) the statements of C12 and non-vacuity examples. *)
+   its result, a task making its inner call, a task running for the first time (and possibly
+   being suspended on an unready clone), the script completing an inner call or making a clone
+   ready, cancellation, the clock, and the poll itself in each phase; (3) the system invariant
+   by induction over event lists (Lib/Base.v reach_inv); (4) the statements of C12 and
+   non-vacuity examples. *)
 From TR Require Import Lib.Base Model.Hedge.
 
 (* ---------- vocabulary ---------- *)
@@ -15,8 +17,8 @@ Definition att (e : item * Z) : nat := it_att (fst e).
 Definition pending (x : call) : Prop := ph x = Latency \/ ph x = Drain.
 Definition out_of (ok : bool) : outcome := if ok then OOk else OErr.
 Definition is_err (m : item) : Prop := it_ok m = false.
-(* start instants once the n tasks that are spawned but have not run yet have run (at `now`) *)
-Definition es (now : Z) (n : nat) (x : call) : list Z := starts x ++ repeat now n.
+(* launch instants once the n tasks that are spawned but have not run yet have run (at `now`) *)
+Definition es (now : Z) (n : nat) (x : call) : list Z := launch x ++ repeat now n.
 Definition spaced (c : cfg) (l : list Z) : Prop :=
   forall k, (S k < length l)%nat -> nth k l 0 + delay c (S k) <= nth (S k) l 0.
 Definition hd_pe (cs : list item) : option Z :=
@@ -74,13 +76,72 @@ Qed.
 
 Lemma closed_spec x :
   closed x = true <->
-  length (starts x) = sp x /\ forall k, (k < sp x)%nat -> gate x k <> None.
+  length (launch x) = sp x /\ waiting x = [] /\
+  forall n, (n < length (starts x))%nat -> gate x n <> None.
 Proof.
-  unfold closed. rewrite andb_true_iff, Nat.eqb_eq, forallb_forall. split; intros [H1 H2]; split; try exact H1.
-  - intros k Hk. specialize (H2 k). rewrite in_seq in H2. specialize (H2 ltac:(lia)).
-    destruct (gate x k); [discriminate|discriminate H2].
-  - intros k Hk. apply in_seq in Hk. specialize (H2 k ltac:(lia)).
-    destruct (gate x k); [reflexivity|congruence].
+  unfold closed. rewrite !andb_true_iff, Nat.eqb_eq, forallb_forall. split.
+  - intros [[H1 H2] H3]. split; [exact H1|]. split; [destruct (waiting x); [reflexivity|discriminate]|].
+    intros n Hn. specialize (H3 n). rewrite in_seq in H3. specialize (H3 ltac:(lia)).
+    destruct (gate x n); [discriminate|discriminate H3].
+  - intros (H1 & H2 & H3). split; [split; [exact H1|rewrite H2; reflexivity]|].
+    intros n Hn. apply in_seq in Hn. specialize (H3 n ltac:(lia)).
+    destruct (gate x n); [reflexivity|congruence].
+Qed.
+
+(* ---------- lists of task ids ---------- *)
+Lemma mem_In k l : mem k l = true <-> In k l.
+Proof.
+  unfold mem. rewrite existsb_exists. split.
+  - intros [y [Hy He]]. apply Nat.eqb_eq in He. subst. exact Hy.
+  - intros H. exists k. split; [exact H|apply Nat.eqb_refl].
+Qed.
+
+Lemma in_remove_id j k l : In j (remove_id k l) <-> In j l /\ j <> k.
+Proof.
+  unfold remove_id. rewrite filter_In. split; intros [H1 H2]; split; try exact H1.
+  - intros ->. rewrite Nat.eqb_refl in H2. discriminate.
+  - apply Bool.negb_true_iff. apply Nat.eqb_neq. exact H2.
+Qed.
+
+Lemma remove_id_cons k y t :
+  remove_id k (y :: t) = if Nat.eqb y k then remove_id k t else y :: remove_id k t.
+Proof. unfold remove_id. cbn. destruct (Nat.eqb y k); reflexivity. Qed.
+
+Lemma remove_id_notin k l : ~ In k l -> remove_id k l = l.
+Proof.
+  induction l as [|y t IH]; intros H; [reflexivity|].
+  rewrite remove_id_cons. destruct (Nat.eqb_spec y k) as [->|Hne].
+  - exfalso. apply H. left. reflexivity.
+  - f_equal. apply IH. intros Hi. apply H. right. exact Hi.
+Qed.
+
+Lemma length_remove_id k l : NoDup l -> In k l -> S (length (remove_id k l)) = length l.
+Proof.
+  induction l as [|y t IH]; intros Hnd Hin; [destruct Hin|].
+  inversion Hnd as [|? ? Hy Ht]; subst. rewrite remove_id_cons.
+  destruct (Nat.eqb_spec y k) as [->|Hne]; cbn [length].
+  - rewrite remove_id_notin by exact Hy. reflexivity.
+  - f_equal. apply IH; [exact Ht|]. destruct Hin as [->|Hin]; [congruence|exact Hin].
+Qed.
+
+Lemma nodup_snoc (l : list nat) k : NoDup l -> ~ In k l -> NoDup (l ++ [k]).
+Proof.
+  induction l as [|y t IH]; intros H Hx; cbn.
+  - constructor; [intros []|constructor].
+  - inversion H as [|? ? Hy Ht]; subst. constructor.
+    + rewrite in_app_iff. intros [Hin|[->|[]]]; [exact (Hy Hin)|]. apply Hx. left. reflexivity.
+    + apply IH; [exact Ht|]. intros Hin. apply Hx. right. exact Hin.
+Qed.
+
+(* the owner of an inner call determines its position *)
+Lemma owner_inj (l : list (nat * Z)) : NoDup (map fst l) ->
+  forall n n' k s s', nth_error l n = Some (k, s) -> nth_error l n' = Some (k, s') -> n = n'.
+Proof.
+  intros Hnd n n' k s s' H1 H2.
+  assert (E1 : nth_error (map fst l) n = Some k) by (rewrite nth_error_map, H1; reflexivity).
+  assert (E2 : nth_error (map fst l) n' = Some k) by (rewrite nth_error_map, H2; reflexivity).
+  rewrite NoDup_nth_error in Hnd. apply Hnd; [|congruence].
+  apply nth_error_Some. congruence.
 Qed.
 
 (* ---------- the timer branch ---------- *)
@@ -126,14 +187,14 @@ Lemma upd_pe_app l1 l2 pe : upd_pe (l1 ++ l2) pe = upd_pe l2 (upd_pe l1 pe).
 Proof. unfold upd_pe. apply fold_left_app. Qed.
 
 Lemma upd_pe_val i l : forall pe,
-  (forall m, In m l -> it_val m = val i (it_att m)) ->
+  (forall m, In m l -> it_att m = 0%nat -> it_val m = val i 0) ->
   (forall e, pe = Some e -> e = val i 0) ->
   forall e, upd_pe l pe = Some e -> e = val i 0.
 Proof.
   induction l as [|m l IH]; intros pe Hv Hp e He; cbn in He; [apply Hp; exact He|].
   refine (IH _ _ _ e He); [intros m' Hm'; apply Hv; right; exact Hm'|].
   intros e' He'. destruct (Nat.eqb_spec (it_att m) 0) as [E|E]; [|apply Hp; exact He'].
-  injection He' as <-. rewrite (Hv m (or_introl eq_refl)), E. reflexivity.
+  injection He' as <-. apply (Hv m (or_introl eq_refl) E).
 Qed.
 
 Lemma upd_pe_some l : forall pe,
@@ -210,17 +271,21 @@ Proof.
         split; [constructor; [reflexivity|exact Hq]|exact Hp].
 Qed.
 
+(* what AllAttemptsFailed e at instant tau guarantees *)
 Definition failed_spec (c : cfg) (i : nat) (x : call) (e tau : Z) : Prop :=
-  sp x = maxa c /\
-  (forall k, (k < maxa c)%nat -> exists o, gate x k = Some o /\ o <> OOk /\
-      (o = OErr -> exists tk, In ((k, false, val i k), tk) (dlog x) /\ tk <= tau)) /\
+  length (launch x) = maxa c /\ length (starts x) = maxa c /\
+  (forall n, (n < maxa c)%nat -> exists o, gate x n = Some o /\ o <> OOk /\
+      (o = OErr -> exists k tk, In ((k, false, val i n), tk) (dlog x) /\ tk <= tau)) /\
   (latency_mode c = true -> (1 < maxa c)%nat ->
-      e = val i 0 /\ forall k, (k < maxa c)%nat -> gate x k = Some OErr) /\
+      e = val i 0 /\ forall n, (n < maxa c)%nat -> gate x n = Some OErr) /\
   (latency_mode c = false \/ maxa c = 1%nat ->
       exists k tk rest, dlog x = ((k, false, e), tk) :: rest).
 
-Record Cbase (c : cfg) (i : nat) (now : Z) (n : nat) (x : call) : Prop := {
-  a_len : (length (starts x) + n = sp x)%nat;
+(* n = attempt tasks spawned by the poll in progress that have not run yet;
+   h = tasks that have been launched, are not waiting for readiness and have not made their
+   inner call yet (1 in the middle of a launch / of a readiness notification, else 0) *)
+Record Cbase (c : cfg) (i : nat) (now : Z) (n h : nat) (x : call) : Prop := {
+  a_len : (length (launch x) + n = sp x)%nat;
   a_max : (sp x <= maxa c)%nat;
   a_created : ph x = Created -> sp x = 0%nat /\ dlog x = [] /\ queue x = [] /\ cons x = [];
   a_pos : pending x -> (1 <= sp x)%nat;
@@ -228,15 +293,26 @@ Record Cbase (c : cfg) (i : nat) (now : Z) (n : nat) (x : call) : Prop := {
   a_drain : ph x = Drain -> sp x = maxa c /\ (latency_mode c = false \/ maxa c = 1%nat);
   a_par : latency_mode c = false -> (1 <= sp x)%nat -> sp x = maxa c;
   b_t0 : (1 <= sp x)%nat -> nth 0 (es now n x) 0 = t0 x;
-  b_le : Forall (fun t => t <= now) (starts x);
+  b_le : Forall (fun t => t <= now) (launch x);
   b_sp : latency_mode c = true -> spaced c (es now n x);
   b_par : latency_mode c = false -> Forall (eq (t0 x)) (es now n x);
   b_dl : ph x = Latency -> (sp x < maxa c)%nat ->
          dline x = nth (sp x - 1) (es now n x) 0 + delay c (sp x);
+  s_cnt : (length (starts x) + length (waiting x) + h = length (launch x))%nat;
+  s_nd : NoDup (map fst (starts x));
+  s_in : forall k s, In (k, s) (starts x) ->
+         (k < length (launch x))%nat /\ ~ In k (waiting x) /\ nth k (launch x) 0 <= s <= now;
+  s_hd : forall k s, nth_error (starts x) 0 = Some (k, s) -> k = 0%nat /\ s = nth 0 (launch x) 0;
+  s_pr : (1 <= length (launch x))%nat -> (1 <= length (starts x) + h)%nat;
+  w_in : forall k, In k (waiting x) -> (1 <= k < length (launch x))%nat /\ rdy x k = false;
+  w_nd : NoDup (waiting x);
+  g_off : gated c = false -> forall k, rdy x k = true;
+  g_seq : gated c = false -> forall n0 k s, nth_error (starts x) n0 = Some (k, s) ->
+          k = n0 /\ s = nth n0 (launch x) 0;
   c_log : map fst (dlog x) = cons x ++ queue x;
   c_ent : forall m tau, In (m, tau) (dlog x) ->
-          (it_att m < length (starts x))%nat /\ gate x (it_att m) = Some (out_of (it_ok m)) /\
-          it_val m = val i (it_att m) /\ nth (it_att m) (starts x) 0 <= tau <= now;
+          exists n s, nth_error (starts x) n = Some (it_att m, s) /\
+                      gate x n = Some (out_of (it_ok m)) /\ it_val m = val i n /\ s <= tau <= now;
   c_nd : NoDup (map att (dlog x));
   c_err : pending x -> Forall is_err (cons x);
   c_lat : ph x = Latency ->
@@ -253,113 +329,110 @@ Record Cbase (c : cfg) (i : nat) (now : Z) (n : nat) (x : call) : Prop := {
           tau < t0 x + delay c 1 -> sp x = 1%nat
 }.
 
-Definition DlvExcept (k0 : nat) (x : call) : Prop :=
-  pending x -> forall k o, k <> k0 -> (k < length (starts x))%nat -> gate x k = Some o ->
+
+(* open the record without shadowing the projections *)
+Ltac open_base H :=
+  let HB := fresh "HB" in pose proof H as HB;
+  destruct HB as [F01 F02 F03 F04 F05 F06 F07 F08 F09 F10 F11 F12 F13 F14 F15 F16 F17 F18 F19 F20 F21 F22 F23 F24 F25 F26 F27 F28 F29 F30 F31 F32].
+
+(* every started inner call that has finished without panicking has delivered its message *)
+Definition DlvExcept (n0 : nat) (x : call) : Prop :=
+  pending x -> forall n k s o, n <> n0 -> nth_error (starts x) n = Some (k, s) -> gate x n = Some o ->
   o <> OPanic -> In k (map att (dlog x)).
 Definition Cdlv (x : call) : Prop :=
-  pending x -> forall k o, (k < length (starts x))%nat -> gate x k = Some o ->
+  pending x -> forall n k s o, nth_error (starts x) n = Some (k, s) -> gate x n = Some o ->
   o <> OPanic -> In k (map att (dlog x)).
 Definition Dcl (x : call) : Prop := ph x = Drain -> closed x = true -> woken x = true.
 Definition Bwk (c : cfg) (now : Z) (x : call) : Prop :=
   ph x = Latency -> (sp x < maxa c)%nat -> dline x <= now -> woken x = true.
-Definition Cfull c i now n x := Cbase c i now n x /\ Cdlv x /\ Dcl x /\ Bwk c now x.
+Definition Cfull c i now n x := Cbase c i now n 0 x /\ Cdlv x /\ Dcl x /\ Bwk c now x.
 
-Lemma nodup_snoc (l : list nat) k : NoDup l -> ~ In k l -> NoDup (l ++ [k]).
+Lemma es_le c i now n h x : Cbase c i now n h x -> Forall (fun t => t <= now) (es now n x).
 Proof.
-  induction l as [|y t IH]; intros H Hx; cbn.
-  - constructor; [intros []|constructor].
-  - inversion H as [|? ? Hy Ht]; subst. constructor.
-    + rewrite in_app_iff. intros [Hin|[->|[]]]; [exact (Hy Hin)|]. apply Hx. left. reflexivity.
-    + apply IH; [exact Ht|]. intros Hin. apply Hx. right. exact Hin.
-Qed.
-
-Lemma es_le c i now n x : Cbase c i now n x -> Forall (fun t => t <= now) (es now n x).
-Proof.
-  intros H. unfold es. apply Forall_app. split; [apply (b_le _ _ _ _ _ H)|].
+  intros H. unfold es. apply Forall_app. split; [apply (b_le _ _ _ _ _ _ H)|].
   apply Forall_forall. intros t Ht. apply repeat_spec in Ht. lia.
 Qed.
 
-Lemma es_len c i now n x : Cbase c i now n x -> length (es now n x) = sp x.
-Proof. intros H. unfold es. rewrite app_length, repeat_length. apply (a_len _ _ _ _ _ H). Qed.
+Lemma es_len c i now n h x : Cbase c i now n h x -> length (es now n x) = sp x.
+Proof. intros H. unfold es. rewrite app_length, repeat_length. apply (a_len _ _ _ _ _ _ H). Qed.
 
 Lemma pending_not_done x : pending x -> ph x <> Done.
 Proof. intros [H|H]; rewrite H; discriminate. Qed.
 
+(* the attempt task that made a logged message has made an inner call *)
+Lemma att_owner c i now n h x k :
+  Cbase c i now n h x -> In k (map att (dlog x)) -> In k (map fst (starts x)).
+Proof.
+  intros H Hin. apply in_map_iff in Hin. destruct Hin as [[m tau] [E Hin]].
+  destruct (c_ent _ _ _ _ _ _ H m tau Hin) as (n0 & s & E1 & _). unfold att in E. cbn in E. subst k.
+  apply in_map_iff. exists (it_att m, s). split; [reflexivity|]. apply (nth_error_In _ _ E1).
+Qed.
+
 (* ---------- a message is pushed into the channel ---------- *)
-Lemma push_ok c i now n x k b :
-  Cbase c i now n x -> DlvExcept k x -> pending x ->
-  (k < length (starts x))%nat -> gate x k = Some (out_of b) -> ~ In k (map att (dlog x)) ->
+Lemma push_ok c i now n x k n0 s b :
+  Cbase c i now n 0 x -> DlvExcept n0 x -> pending x ->
+  nth_error (starts x) n0 = Some (k, s) -> gate x n0 = Some (out_of b) -> ~ In k (map att (dlog x)) ->
   Cfull c i now n
-    (mkCall (ph x) (t0 x) (sp x) (errs x) (perr x) (dline x) (queue x ++ [(k, b, val i k)])
-            (starts x) (gate x) true (dlog x ++ [((k, b, val i k), now)]) (cons x) (res x)).
+    (mkCall (ph x) (t0 x) (sp x) (errs x) (perr x) (dline x) (queue x ++ [(k, b, val i n0)])
+            (launch x) (waiting x) (rdy x) (starts x) (gate x) true
+            (dlog x ++ [((k, b, val i n0), now)]) (cons x) (res x)).
 Proof.
   intros H Hd Hp Hk Hg Hnin.
   assert (Hnd : ph x <> Done) by (apply pending_not_done; exact Hp).
-  assert (Hkn : nth k (starts x) 0 <= now).
-  { pose proof (b_le _ _ _ _ _ H) as Hle. rewrite Forall_forall in Hle. apply Hle. apply nth_In. exact Hk. }
+  assert (Hkn : s <= now).
+  { destruct (s_in _ _ _ _ _ _ H k s (nth_error_In _ _ Hk)) as (_ & _ & E). lia. }
   split; [|split; [|split]].
-  - constructor; cbn [ph t0 sp errs perr dline queue starts gate woken dlog cons res]; unfold es; cbn [starts].
-    + apply (a_len _ _ _ _ _ H).
-    + apply (a_max _ _ _ _ _ H).
+  - open_base H.
+    constructor; cbn [ph t0 sp errs perr dline queue launch waiting rdy starts gate woken dlog cons res];
+      unfold es in *; cbn [launch]; try assumption.
     + intros E. destruct Hp as [Hp|Hp]; congruence.
-    + apply (a_pos _ _ _ _ _ H).
-    + apply (a_lat _ _ _ _ _ H).
-    + apply (a_drain _ _ _ _ _ H).
-    + apply (a_par _ _ _ _ _ H).
-    + apply (b_t0 _ _ _ _ _ H).
-    + apply (b_le _ _ _ _ _ H).
-    + apply (b_sp _ _ _ _ _ H).
-    + apply (b_par _ _ _ _ _ H).
-    + apply (b_dl _ _ _ _ _ H).
-    + rewrite map_app, (c_log _ _ _ _ _ H), <- app_assoc. reflexivity.
+    + rewrite map_app, (c_log _ _ _ _ _ _ H), <- app_assoc. reflexivity.
     + intros m tau Hin. apply in_app_or in Hin. destruct Hin as [Hin|[Hin|[]]].
-      * apply (c_ent _ _ _ _ _ H). exact Hin.
-      * injection Hin as <- <-. cbn. repeat split; try assumption; lia.
-    + rewrite map_app. cbn. apply nodup_snoc; [apply (c_nd _ _ _ _ _ H)|exact Hnin].
-    + apply (c_err _ _ _ _ _ H).
-    + apply (c_lat _ _ _ _ _ H).
-    + apply (c_drn _ _ _ _ _ H).
-    + reflexivity.
-    + intros r0 v0 tau E. destruct (e_res _ _ _ _ _ H _ _ _ E) as [E1 _]. contradiction.
-    + intros v0 tau E. destruct (e_res _ _ _ _ _ H _ _ _ E) as [E1 _]. contradiction.
-    + intros v0 tau E. destruct (e_res _ _ _ _ _ H _ _ _ E) as [E1 _]. contradiction.
+      * apply (c_ent _ _ _ _ _ _ H). exact Hin.
+      * injection Hin as <- <-. exists n0, s. cbn. repeat split; try assumption; lia.
+    + rewrite map_app. cbn. apply nodup_snoc; [apply (c_nd _ _ _ _ _ _ H)|exact Hnin].
+    + intros _ _. reflexivity.
+    + intros v0 tau E. destruct (e_res _ _ _ _ _ _ H _ _ _ E) as [E1 _]. contradiction.
+    + intros v0 tau E. destruct (e_res _ _ _ _ _ _ H _ _ _ E) as [E1 _]. contradiction.
     + intros Hl v0 tau Hin Hlt. apply in_app_or in Hin. destruct Hin as [Hin|[Hin|[]]].
-      * apply (f_one _ _ _ _ _ H Hl _ _ Hin Hlt).
+      * apply (f_one _ _ _ _ _ _ H Hl _ _ Hin Hlt).
       * injection Hin as Ek Eb Ev Et. subst k b tau.
-        pose proof (a_pos _ _ _ _ _ H Hp) as Hpos.
+        pose proof (a_pos _ _ _ _ _ _ H Hp) as Hpos.
         destruct (Nat.eq_dec (sp x) 1) as [E|E]; [exact E|exfalso].
-        pose proof (es_len _ _ _ _ _ H) as Hlen.
-        pose proof (b_sp _ _ _ _ _ H Hl 0%nat ltac:(lia)) as Hs.
-        rewrite (b_t0 _ _ _ _ _ H Hpos) in Hs.
-        pose proof (es_le _ _ _ _ _ H) as Hle. rewrite Forall_forall in Hle.
+        pose proof (es_len _ _ _ _ _ _ H) as Hlen.
+        pose proof (b_sp _ _ _ _ _ _ H Hl 0%nat ltac:(lia)) as Hs.
+        rewrite (b_t0 _ _ _ _ _ _ H Hpos) in Hs.
+        pose proof (es_le _ _ _ _ _ _ H) as Hle. rewrite Forall_forall in Hle.
         specialize (Hle (nth 1 (es now n x) 0) ltac:(apply nth_In; lia)). lia.
-  - intros _ k' o' Hk' Hg' Ho'. cbn [starts gate dlog] in *. rewrite map_app, in_app_iff.
-    destruct (Nat.eq_dec k' k) as [->|Hne]; [right; left; reflexivity|left].
-    apply (Hd Hp k' o' Hne Hk' Hg' Ho').
+  - intros _ n' k' s' o' Hk' Hg' Ho'. cbn [starts gate dlog] in *. rewrite map_app, in_app_iff.
+    destruct (Nat.eq_dec n' n0) as [->|Hne].
+    + right. left. rewrite Hk in Hk'. injection Hk' as <- _. reflexivity.
+    + left. apply (Hd Hp n' k' s' o' Hne Hk' Hg' Ho').
   - intros _ _. reflexivity.
   - intros _ _ _. reflexivity.
 Qed.
 
-Lemma wake_ok c i now n x :
-  Cbase c i now n x ->
-  Cbase c i now n (mkCall (ph x) (t0 x) (sp x) (errs x) (perr x) (dline x) (queue x) (starts x)
-                          (gate x) true (dlog x) (cons x) (res x)).
+Lemma wake_ok c i now n h x :
+  Cbase c i now n h x ->
+  Cbase c i now n h (mkCall (ph x) (t0 x) (sp x) (errs x) (perr x) (dline x) (queue x) (launch x)
+                            (waiting x) (rdy x) (starts x) (gate x) true (dlog x) (cons x) (res x)).
 Proof.
-  intros H. destruct H.
-  constructor; cbn [ph t0 sp errs perr dline queue starts gate woken dlog cons res];
-    unfold es in *; cbn [starts]; try assumption.
+  intros H. open_base H.
+  constructor; cbn [ph t0 sp errs perr dline queue launch waiting rdy starts gate woken dlog cons res];
+    unfold es in *; cbn [launch]; try assumption.
   intros _ _. reflexivity.
 Qed.
 
-Lemma finish_ok c i now n x k o :
-  Cbase c i now n x -> Bwk c now x -> DlvExcept k x ->
-  (k < length (starts x))%nat -> gate x k = Some o -> ~ In k (map att (dlog x)) ->
-  Cfull c i now n (finish i now x k o).
+(* ---------- an attempt task finishes ---------- *)
+Lemma finish_ok c i now n x k n0 s o :
+  Cbase c i now n 0 x -> Bwk c now x -> DlvExcept n0 x ->
+  nth_error (starts x) n0 = Some (k, s) -> gate x n0 = Some o -> ~ In k (map att (dlog x)) ->
+  Cfull c i now n (finish i now x k n0 o).
 Proof.
   intros H Hb Hd Hk Hg Hnin.
   assert (Hcd : pending x -> o = OPanic -> Cdlv x).
-  { intros Hp -> _ k' o' Hk' Hg' Ho'. destruct (Nat.eq_dec k' k) as [->|Hne]; [congruence|].
-    apply (Hd Hp k' o' Hne Hk' Hg' Ho'). }
+  { intros Hp -> _ n' k' s' o' Hk' Hg' Ho'. destruct (Nat.eq_dec n' n0) as [->|Hne]; [congruence|].
+    apply (Hd Hp n' k' s' o' Hne Hk' Hg' Ho'). }
   assert (Hnp : ~ pending x -> Cfull c i now n x).
   { intros Hn. split; [exact H|split; [|split]].
     - intros Hp. contradiction.
@@ -368,15 +441,15 @@ Proof.
   unfold finish. destruct (ph x) eqn:P.
   - apply Hnp. intros [E|E]; congruence.
   - destruct o.
-    + rewrite <- P. apply (push_ok c i now n x k true); try assumption. left. exact P.
-    + rewrite <- P. apply (push_ok c i now n x k false); try assumption. left. exact P.
+    + rewrite <- P. apply (push_ok c i now n x k n0 s true); try assumption. left. exact P.
+    + rewrite <- P. apply (push_ok c i now n x k n0 s false); try assumption. left. exact P.
     + split; [exact H|split; [|split]].
       * apply Hcd; [left; exact P|reflexivity].
       * intros E. congruence.
       * exact Hb.
   - destruct o.
-    + rewrite <- P. apply (push_ok c i now n x k true); try assumption. right. exact P.
-    + rewrite <- P. apply (push_ok c i now n x k false); try assumption. right. exact P.
+    + rewrite <- P. apply (push_ok c i now n x k n0 s true); try assumption. right. exact P.
+    + rewrite <- P. apply (push_ok c i now n x k n0 s false); try assumption. right. exact P.
     + assert (Hp : pending x) by (right; exact P).
       destruct (closed x) eqn:Cl.
       * rewrite <- P. split; [|split; [|split]].
@@ -392,114 +465,297 @@ Proof.
   - apply Hnp. intros [E|E]; congruence.
 Qed.
 
-(* ---------- a spawned task runs for the first time ---------- *)
-Lemma es_shift now n x st' :
-  st' = starts x ++ [now] -> st' ++ repeat now n = es now (S n) x.
-Proof. intros ->. unfold es. rewrite <- app_assoc. reflexivity. Qed.
-
-Lemma started_base c i now n x :
-  Cbase c i now (S n) x ->
-  Cbase c i now n (mkCall (ph x) (t0 x) (sp x) (errs x) (perr x) (dline x) (queue x)
-                          (starts x ++ [now]) (gate x) (woken x) (dlog x) (cons x) (res x)).
+(* ---------- an attempt task makes its inner call ---------- *)
+Lemma call_inner_ok c i now n x k :
+  Cbase c i now n 1 x -> Cdlv x -> Bwk c now x ->
+  (k < length (launch x))%nat -> ~ In k (waiting x) -> ~ In k (map fst (starts x)) ->
+  (starts x = [] -> k = 0%nat /\ nth 0 (launch x) 0 = now) ->
+  (gated c = false -> k = length (starts x) /\ nth k (launch x) 0 = now) ->
+  Cfull c i now n (call_inner i now x k).
 Proof.
-  intros H. pose proof H as H0. destruct H0.
-  constructor; cbn [ph t0 sp errs perr dline queue starts gate woken dlog cons res];
-    unfold es in *; cbn [starts]; rewrite ?(es_shift now n x _ eq_refl); unfold es; try assumption.
-  - rewrite app_length. cbn. lia.
-  - apply Forall_app. split; [assumption|]. constructor; [lia|constructor].
-  - intros m tau Hin. destruct (c_ent _ _ _ _ _ H m tau Hin) as (E1 & E2 & E3 & E4).
-    rewrite app_length. cbn. rewrite app_nth1 by exact E1. repeat split; try assumption; lia.
+  intros H Hd Hb K1 K2 K3 K4 K5. unfold call_inner.
+  set (x1 := mkCall (ph x) (t0 x) (sp x) (errs x) (perr x) (dline x) (queue x) (launch x) (waiting x)
+                    (rdy x) (starts x ++ [(k, now)]) (gate x) (woken x) (dlog x) (cons x) (res x)).
+  assert (Hkn : nth k (launch x) 0 <= now).
+  { pose proof (b_le _ _ _ _ _ _ H) as Hle. rewrite Forall_forall in Hle. apply Hle. apply nth_In. exact K1. }
+  assert (H1 : Cbase c i now n 0 x1).
+  { open_base H.
+    constructor; unfold x1; cbn [ph t0 sp errs perr dline queue launch waiting rdy starts gate woken dlog cons res];
+      unfold es in *; cbn [launch]; try assumption.
+    - rewrite app_length. cbn. lia.
+    - rewrite map_app. cbn. apply nodup_snoc; assumption.
+    - intros k' s' Hin. apply in_app_or in Hin. destruct Hin as [Hin|[Hin|[]]].
+      + apply (s_in _ _ _ _ _ _ H). exact Hin.
+      + injection Hin as <- <-. repeat split; try assumption; lia.
+    - intros k' s' E. destruct (starts x) as [|p l] eqn:Es.
+      + cbn in E. injection E as <- <-. destruct (K4 eq_refl) as [K41 K42]. split; [exact K41|symmetry; exact K42].
+      + cbn in E. apply (s_hd _ _ _ _ _ _ H k' s'). rewrite Es. exact E.
+    - intros _. rewrite app_length. cbn. lia.
+    - intros G n0 k' s' E.
+      assert (n0 < length (starts x ++ [(k, now)]))%nat by (apply nth_error_Some; congruence).
+      rewrite app_length in H0. cbn in H0.
+      destruct (Nat.eq_dec n0 (length (starts x))) as [->|Hne].
+      + rewrite nth_error_app2 in E by lia. rewrite Nat.sub_diag in E. cbn in E. injection E as <- <-.
+        destruct (K5 G) as [K51 K52]. rewrite <- K51. split; [reflexivity|symmetry; exact K52].
+      + rewrite nth_error_app1 in E by lia. apply (g_seq _ _ _ _ _ _ H G n0 k' s' E).
+    - intros m tau Hin. destruct (c_ent _ _ _ _ _ _ H m tau Hin) as (n0 & s & E1 & E2).
+      exists n0, s. split; [|exact E2]. rewrite nth_error_app1; [exact E1|].
+      apply nth_error_Some. congruence.
+    - intros e tau E. exfalso. destruct (e_fail _ _ _ _ _ _ H e tau E) as (F0 & F1 & _).
+      pose proof (s_cnt _ _ _ _ _ _ H). lia. }
+  assert (Hnew : nth_error (starts x1) (length (starts x)) = Some (k, now)).
+  { unfold x1. cbn. rewrite nth_error_app2 by lia. rewrite Nat.sub_diag. reflexivity. }
+  assert (Hold : forall n' k' s', n' <> length (starts x) -> nth_error (starts x1) n' = Some (k', s') ->
+                  nth_error (starts x) n' = Some (k', s')).
+  { intros n' k' s' Hne E. unfold x1 in E. cbn in E.
+    assert (n' < length (starts x ++ [(k, now)]))%nat by (apply nth_error_Some; congruence).
+    rewrite app_length in H0. cbn in H0. rewrite nth_error_app1 in E by lia. exact E. }
+  destruct (gate x (length (starts x))) as [o|] eqn:G.
+  - apply (finish_ok c i now n x1 k (length (starts x)) now o); try assumption.
+    + intros Hp n' k' s' o' Hne Hk' Hg' Ho'. apply (Hd Hp n' k' s' o'); try assumption.
+      apply Hold; assumption.
+    + intros Hin. apply K3. apply (att_owner c i now n 1 x k H). exact Hin.
+  - split; [exact H1|split; [|split]].
+    + intros Hp n' k' s' o' Hk' Hg' Ho'.
+      destruct (Nat.eq_dec n' (length (starts x))) as [->|Hne].
+      * unfold x1 in Hg'. cbn in Hg'. congruence.
+      * apply (Hd Hp n' k' s' o'); try assumption. apply Hold; assumption.
+    + intros _ Cl. apply closed_spec in Cl. destruct Cl as (_ & _ & Cl). exfalso.
+      apply (Cl (length (starts x))); [unfold x1; cbn; rewrite app_length; cbn; lia|exact G].
+    + exact Hb.
 Qed.
 
-Lemma start_ok c i now n x : Cfull c i now (S n) x -> Cfull c i now n (start_attempt i now x).
+(* ---------- a spawned task runs for the first time ---------- *)
+Lemma es_shift now n x st' :
+  st' = launch x ++ [now] -> st' ++ repeat now n = es now (S n) x.
+Proof. intros ->. unfold es. rewrite <- app_assoc. reflexivity. Qed.
+
+Lemma launched_base c i now n x wt h :
+  Cbase c i now (S n) 0 x ->
+  (wt = waiting x /\ h = 1%nat) \/
+  (wt = waiting x ++ [length (launch x)] /\ h = 0%nat /\ (1 <= length (launch x))%nat /\
+   rdy x (length (launch x)) = false) ->
+  Cbase c i now n h (mkCall (ph x) (t0 x) (sp x) (errs x) (perr x) (dline x) (queue x)
+                            (launch x ++ [now]) wt (rdy x) (starts x) (gate x) (woken x)
+                            (dlog x) (cons x) (res x)).
 Proof.
-  intros (H & Hd & Hc & Hb).
-  pose proof (started_base c i now n x H) as H1.
-  unfold start_attempt.
-  set (x1 := mkCall (ph x) (t0 x) (sp x) (errs x) (perr x) (dline x) (queue x)
-                    (starts x ++ [now]) (gate x) (woken x) (dlog x) (cons x) (res x)) in *.
-  assert (Hlen : length (starts x1) = S (length (starts x))).
-  { unfold x1. cbn. rewrite app_length. cbn. lia. }
-  assert (Hncl : gate x (length (starts x)) = None -> closed x1 = false).
-  { intros G. destruct (closed x1) eqn:Cl; [|reflexivity]. apply closed_spec in Cl.
-    destruct Cl as [_ Cl]. exfalso. apply (Cl (length (starts x))); [|exact G].
-    pose proof (a_len _ _ _ _ _ H). unfold x1. cbn. lia. }
-  destruct (gate x (length (starts x))) as [o|] eqn:G.
-  - apply finish_ok; try assumption.
-    + intros Hp k' o' Hne Hk' Hg' Ho'. apply (Hd Hp k' o'); try assumption.
-      rewrite Hlen in Hk'. lia.
-    + rewrite Hlen. lia.
-    + intros Hin. apply in_map_iff in Hin. destruct Hin as [[m tau] [E Hin]].
-      destruct (c_ent _ _ _ _ _ H m tau Hin) as (E1 & _). unfold att in E. cbn in E. lia.
-  - split; [exact H1|split; [|split]].
-    + intros Hp k' o' Hk' Hg' Ho'. rewrite Hlen in Hk'.
-      destruct (Nat.eq_dec k' (length (starts x))) as [->|Hne].
-      * unfold x1 in Hg'. cbn in Hg'. congruence.
-      * apply (Hd Hp k' o'); try assumption. lia.
-    + intros _ Cl. rewrite Hncl in Cl by reflexivity. discriminate.
+  intros H Hw. open_base H.
+  assert (Hwl : forall k, In k (waiting x) -> (k < length (launch x))%nat).
+  { intros k Hk. destruct (w_in _ _ _ _ _ _ H k Hk) as [E _]. lia. }
+  constructor; cbn [ph t0 sp errs perr dline queue launch waiting rdy starts gate woken dlog cons res];
+    unfold es in *; cbn [launch]; rewrite ?(es_shift now n x _ eq_refl); unfold es; try assumption.
+  - rewrite app_length. cbn. lia.
+  - apply Forall_app. split; [assumption|]. constructor; [lia|constructor].
+  - rewrite app_length. cbn [length].
+    destruct Hw as [[-> ->]|(-> & -> & _)]; [lia|rewrite app_length; cbn; lia].
+  - intros k s Hin. destruct (s_in _ _ _ _ _ _ H k s Hin) as (E1 & E2 & E3).
+    rewrite app_length. cbn [length]. rewrite app_nth1 by exact E1.
+    split; [lia|]. split; [|exact E3].
+    destruct Hw as [[-> _]|(-> & _)]; [exact E2|].
+    rewrite in_app_iff. intros [Hin'|[Hin'|[]]]; [exact (E2 Hin')|lia].
+  - intros k s E. destruct (s_hd _ _ _ _ _ _ H k s E) as [E1 E2]. split; [exact E1|].
+    destruct (s_in _ _ _ _ _ _ H k s (nth_error_In _ _ E)) as (E3 & _). subst k.
+    rewrite app_nth1 by exact E3. exact E2.
+  - intros _.
+    destruct Hw as [[_ ->]|(_ & -> & Hl & _)]; [lia|].
+    pose proof (s_pr _ _ _ _ _ _ H Hl). lia.
+  - intros k Hk. rewrite app_length. cbn [length].
+    destruct Hw as [[-> _]|(-> & _ & Hl & Hr)].
+    + destruct (w_in _ _ _ _ _ _ H k Hk) as [E1 E2]. split; [lia|exact E2].
+    + apply in_app_or in Hk. destruct Hk as [Hk|[<-|[]]].
+      * destruct (w_in _ _ _ _ _ _ H k Hk) as [E1 E2]. split; [lia|exact E2].
+      * split; [lia|exact Hr].
+  - destruct Hw as [[-> _]|(-> & _)]; [exact (w_nd _ _ _ _ _ _ H)|].
+    apply nodup_snoc; [exact (w_nd _ _ _ _ _ _ H)|]. intros Hin. specialize (Hwl _ Hin). lia.
+  - intros G n0 k s E. destruct (g_seq _ _ _ _ _ _ H G n0 k s E) as [E1 E2]. split; [exact E1|].
+    destruct (s_in _ _ _ _ _ _ H k s (nth_error_In _ _ E)) as (E3 & _). subst k.
+    rewrite app_nth1 by exact E3. exact E2.
+  - intros e tau E. exfalso. destruct (e_fail _ _ _ _ _ _ H e tau E) as (F0 & _).
+    pose proof (a_len _ _ _ _ _ _ H). pose proof (a_max _ _ _ _ _ _ H). lia.
+Qed.
+
+Lemma launch_ok c i now n x : Cfull c i now (S n) x -> Cfull c i now n (launch_task i now x).
+Proof.
+  intros (H & Hd & Hc & Hb). unfold launch_task.
+  pose proof (s_cnt _ _ _ _ _ _ H) as Hcnt.
+  destruct (Nat.eqb (length (launch x)) 0 || rdy x (length (launch x))) eqn:R.
+  - apply call_inner_ok.
+    + apply launched_base; [exact H|]. left. split; reflexivity.
+    + exact Hd.
+    + exact Hb.
+    + cbn. rewrite app_length. cbn. lia.
+    + cbn. intros Hin. destruct (w_in _ _ _ _ _ _ H _ Hin) as [E _]. lia.
+    + cbn. intros Hin. apply in_map_iff in Hin. destruct Hin as [[k s] [E Hin]]. cbn in E. subst k.
+      destruct (s_in _ _ _ _ _ _ H _ _ Hin) as [E _]. lia.
+    + cbn. intros Es. destruct (Nat.eq_dec (length (launch x)) 0) as [E|E].
+      * split; [exact E|]. apply length_zero_iff_nil in E. rewrite E. reflexivity.
+      * exfalso. pose proof (s_pr _ _ _ _ _ _ H ltac:(lia)) as P. rewrite Es in P. cbn in P. lia.
+    + cbn. intros G.
+      assert (Ew : waiting x = []).
+      { destruct (waiting x) as [|k0 l] eqn:Ew; [reflexivity|exfalso].
+        destruct (w_in _ _ _ _ _ _ H k0) as [_ E]; [rewrite Ew; left; reflexivity|].
+        rewrite (g_off _ _ _ _ _ _ H G k0) in E. discriminate. }
+      rewrite Ew in Hcnt. cbn in Hcnt. split; [lia|].
+      rewrite app_nth2 by lia. rewrite Nat.sub_diag. reflexivity.
+  - apply orb_false_iff in R. destruct R as [R1 R2]. apply Nat.eqb_neq in R1.
+    split; [|split; [|split]].
+    + apply launched_base; [exact H|]. right. repeat split; try assumption; lia.
+    + exact Hd.
+    + intros _ Cl. apply closed_spec in Cl. destruct Cl as (_ & Cl & _). cbn in Cl.
+      destruct (waiting x); discriminate.
     + exact Hb.
 Qed.
 
 Lemma run_tasks_ok c i now n : forall x, Cfull c i now n x -> Cfull c i now 0 (run_tasks i now n x).
 Proof.
   induction n as [|n IH]; intros x H; cbn [run_tasks]; [exact H|].
-  apply IH. apply start_ok. exact H.
+  apply IH. apply launch_ok. exact H.
 Qed.
 
-Lemma run_tasks_starts i now n : forall x, starts (run_tasks i now n x) = starts x ++ repeat now n.
+(* what running tasks leaves alone *)
+Lemma finish_frame i now y k n o :
+  launch (finish i now y k n o) = launch y /\ starts (finish i now y k n o) = starts y /\
+  res (finish i now y k n o) = res y /\ rdy (finish i now y k n o) = rdy y.
+Proof.
+  unfold finish. destruct (ph y); try (repeat split; fail); destruct o; try (repeat split; fail);
+    destruct (closed y); repeat split.
+Qed.
+
+Lemma call_inner_frame i now y k :
+  launch (call_inner i now y k) = launch y /\ res (call_inner i now y k) = res y /\
+  starts (call_inner i now y k) = starts y ++ [(k, now)] /\ rdy (call_inner i now y k) = rdy y.
+Proof.
+  unfold call_inner. destruct (gate y (length (starts y))).
+  - destruct (finish_frame i now
+      (mkCall (ph y) (t0 y) (sp y) (errs y) (perr y) (dline y) (queue y) (launch y) (waiting y)
+              (rdy y) (starts y ++ [(k, now)]) (gate y) (woken y) (dlog y) (cons y) (res y))
+      k (length (starts y)) o) as (E1 & E2 & E3 & E4).
+    rewrite E1, E2, E3, E4. repeat split.
+  - repeat split.
+Qed.
+
+Lemma launch_task_frame i now y :
+  launch (launch_task i now y) = launch y ++ [now] /\ res (launch_task i now y) = res y /\
+  rdy (launch_task i now y) = rdy y /\
+  starts (launch_task i now y) =
+    if Nat.eqb (length (launch y)) 0 || rdy y (length (launch y))
+    then starts y ++ [(length (launch y), now)] else starts y.
+Proof.
+  unfold launch_task. destruct (Nat.eqb (length (launch y)) 0 || rdy y (length (launch y))).
+  - match goal with |- context [call_inner i now ?z ?k] =>
+      destruct (call_inner_frame i now z k) as (E1 & E2 & E3 & E4) end.
+    rewrite E1, E2, E3, E4. repeat split.
+  - repeat split.
+Qed.
+
+Lemma run_tasks_launch i now n : forall x, launch (run_tasks i now n x) = launch x ++ repeat now n.
 Proof.
   induction n as [|n IH]; intros x; cbn [run_tasks repeat]; [rewrite app_nil_r; reflexivity|].
-  rewrite IH. unfold start_attempt.
-  assert (E : forall y k o, starts (finish i now y k o) = starts y).
-  { intros y k o. unfold finish. destruct (ph y); try reflexivity; destruct o; try reflexivity;
-      destruct (closed y); reflexivity. }
-  destruct (gate x (length (starts x))); [rewrite E|]; cbn [starts]; rewrite <- app_assoc; reflexivity.
+  rewrite IH. destruct (launch_task_frame i now x) as (E & _). rewrite E, <- app_assoc. reflexivity.
+Qed.
+
+Lemma run_tasks_res i now n : forall x, res (run_tasks i now n x) = res x.
+Proof.
+  induction n as [|n IH]; intros x; cbn [run_tasks]; [reflexivity|].
+  rewrite IH. destruct (launch_task_frame i now x) as (_ & E & _). exact E.
 Qed.
 
 (* ---------- the script completes an inner call ---------- *)
 Lemma failed_spec_gate c i x x' e tau :
-  sp x' = sp x -> dlog x' = dlog x ->
+  launch x' = launch x -> starts x' = starts x -> dlog x' = dlog x ->
   (forall k o, gate x k = Some o -> gate x' k = Some o) ->
   failed_spec c i x e tau -> failed_spec c i x' e tau.
 Proof.
-  intros E1 E2 Hg (F1 & F2 & F3 & F4). unfold failed_spec. rewrite E1, E2.
-  split; [exact F1|]. split; [|split; [|exact F4]].
+  intros E0 E1 E2 Hg (F0 & F1 & F2 & F3 & F4). unfold failed_spec. rewrite E0, E1, E2.
+  split; [exact F0|]. split; [exact F1|]. split; [|split; [|exact F4]].
   - intros k Hk. destruct (F2 k Hk) as (o & G & R). exists o. split; [apply Hg; exact G|exact R].
   - intros L M. destruct (F3 L M) as [R1 R2]. split; [exact R1|]. intros k Hk. apply Hg. apply R2. exact Hk.
 Qed.
 
-Lemma complete_ok c i now x k o :
-  Cfull c i now 0 x -> Cfull c i now 0 (complete_call i now x k o).
+Lemma complete_ok c i now x n0 o :
+  Cfull c i now 0 x -> Cfull c i now 0 (complete_call i now x n0 o).
 Proof.
   intros (H & Hd & Hc & Hb). unfold complete_call.
-  destruct (gate x k) eqn:G; [exact (conj H (conj Hd (conj Hc Hb)))|].
-  set (x1 := mkCall (ph x) (t0 x) (sp x) (errs x) (perr x) (dline x) (queue x) (starts x)
-                    (fun j => if Nat.eqb j k then Some o else gate x j) (woken x) (dlog x) (cons x) (res x)).
+  destruct (gate x n0) eqn:G; [exact (conj H (conj Hd (conj Hc Hb)))|].
+  set (x1 := mkCall (ph x) (t0 x) (sp x) (errs x) (perr x) (dline x) (queue x) (launch x) (waiting x)
+                    (rdy x) (starts x) (fun j => if Nat.eqb j n0 then Some o else gate x j) (woken x)
+                    (dlog x) (cons x) (res x)).
   assert (Hg : forall j o', gate x j = Some o' -> gate x1 j = Some o').
-  { intros j o' Gj. unfold x1. cbn. destruct (Nat.eqb_spec j k) as [->|_]; [congruence|exact Gj]. }
-  assert (Hg2 : forall j, j <> k -> gate x1 j = gate x j).
+  { intros j o' Gj. unfold x1. cbn. destruct (Nat.eqb_spec j n0) as [->|_]; [congruence|exact Gj]. }
+  assert (Hg2 : forall j, j <> n0 -> gate x1 j = gate x j).
   { intros j Hj. unfold x1. cbn. apply Nat.eqb_neq in Hj. rewrite Hj. reflexivity. }
-  assert (H1 : Cbase c i now 0 x1).
-  { pose proof H as H0. destruct H0.
-    constructor; unfold x1; cbn [ph t0 sp errs perr dline queue starts gate woken dlog cons res];
-      unfold es in *; cbn [starts]; try assumption.
-    - intros m tau Hin. destruct (c_ent _ _ _ _ _ H m tau Hin) as (E1 & E2 & E3 & E4).
-      repeat split; try assumption; try lia. apply (Hg _ _ E2).
-    - intros e tau E. apply (failed_spec_gate c i x); try reflexivity; [exact Hg|]. apply (e_fail _ _ _ _ _ H). exact E. }
-  assert (Hnin : ~ In k (map att (dlog x))).
-  { intros Hin. apply in_map_iff in Hin. destruct Hin as [[m tau] [E Hin]].
-    destruct (c_ent _ _ _ _ _ H m tau Hin) as (_ & E2 & _). unfold att in E. cbn in E. congruence. }
-  destruct (k <? length (starts x))%nat eqn:K.
-  - apply Nat.ltb_lt in K. apply finish_ok; try assumption.
-    + intros Hp k' o' Hne Hk' Hg' Ho'. rewrite (Hg2 k' Hne) in Hg'. apply (Hd Hp k' o'); assumption.
+  assert (H1 : Cbase c i now 0 0 x1).
+  { open_base H.
+    constructor; unfold x1; cbn [ph t0 sp errs perr dline queue launch waiting rdy starts gate woken dlog cons res];
+      unfold es in *; cbn [launch]; try assumption.
+    - intros m tau Hin. destruct (c_ent _ _ _ _ _ _ H m tau Hin) as (n1 & s & E1 & E2 & E3).
+      exists n1, s. split; [exact E1|]. split; [apply (Hg _ _ E2)|exact E3].
+    - intros e tau E. apply (failed_spec_gate c i x); try reflexivity; [exact Hg|].
+      apply (e_fail _ _ _ _ _ _ H). exact E. }
+  destruct (nth_error (starts x) n0) as [[k s]|] eqn:K.
+  - apply (finish_ok c i now 0 x1 k n0 s o); try assumption.
+    + intros Hp n' k' s' o' Hne Hk' Hg' Ho'. rewrite (Hg2 n' Hne) in Hg'. apply (Hd Hp n' k' s' o'); assumption.
     + unfold x1. cbn. rewrite Nat.eqb_refl. reflexivity.
-  - apply Nat.ltb_ge in K. split; [exact H1|split; [|split]].
-    + intros Hp k' o' Hk' Hg' Ho'. unfold x1 in Hk'. cbn in Hk'.
-      rewrite (Hg2 k') in Hg' by lia. apply (Hd Hp k' o'); assumption.
+    + intros Hin. apply in_map_iff in Hin. destruct Hin as [[m tau] [E Hin]].
+      destruct (c_ent _ _ _ _ _ _ H m tau Hin) as (n1 & s1 & E1 & E2 & _). unfold att in E. cbn in E.
+      rewrite E in E1.
+      pose proof (owner_inj (starts x) (s_nd _ _ _ _ _ _ H) n1 n0 k s1 s E1 K). congruence.
+  - split; [exact H1|split; [|split]].
+    + intros Hp n' k' s' o' Hk' Hg' Ho'. unfold x1 in Hk'. cbn in Hk'.
+      rewrite (Hg2 n') in Hg' by congruence. apply (Hd Hp n' k' s' o'); assumption.
     + intros E Cl. apply (Hc E). apply closed_spec. apply closed_spec in Cl.
-      destruct Cl as [C1 C2]. split; [exact C1|]. intros j Hj.
-      pose proof (a_len _ _ _ _ _ H) as Hl. unfold x1 in C1, C2, Hj. cbn in C1, C2, Hj.
-      rewrite <- (Hg2 j) by lia. apply C2. exact Hj.
+      destruct Cl as (C1 & C2 & C3). split; [exact C1|]. split; [exact C2|]. intros j Hj.
+      unfold x1 in C3. cbn in C3. rewrite <- (Hg2 j).
+      * apply C3. exact Hj.
+      * intros ->. apply nth_error_None in K. lia.
+    + exact Hb.
+Qed.
+
+(* ---------- the script makes a clone ready ---------- *)
+Lemma ready_ok c i now x k :
+  Cfull c i now 0 x -> Cfull c i now 0 (ready_call i now x k).
+Proof.
+  intros (H & Hd & Hc & Hb). unfold ready_call.
+  destruct (rdy x k) eqn:R; [exact (conj H (conj Hd (conj Hc Hb)))|].
+  set (x1 := mkCall (ph x) (t0 x) (sp x) (errs x) (perr x) (dline x) (queue x) (launch x)
+                    (remove_id k (waiting x)) (fun j => if Nat.eqb j k then true else rdy x j)
+                    (starts x) (gate x) (woken x) (dlog x) (cons x) (res x)).
+  assert (Hb1 : forall h, (length (starts x) + length (remove_id k (waiting x)) + h = length (launch x))%nat ->
+                Cbase c i now 0 h x1).
+  { intros h Hh. open_base H.
+    constructor; unfold x1; cbn [ph t0 sp errs perr dline queue launch waiting rdy starts gate woken dlog cons res];
+      unfold es in *; cbn [launch]; try assumption.
+    - intros k' s' Hin. destruct (s_in _ _ _ _ _ _ H k' s' Hin) as (E1 & E2 & E3).
+      split; [exact E1|]. split; [|exact E3]. intros Hin'. apply in_remove_id in Hin'. apply E2. apply Hin'.
+    - intros Hl. pose proof (s_pr _ _ _ _ _ _ H Hl). lia.
+    - intros k' Hk'. apply in_remove_id in Hk'. destruct Hk' as [Hk' Hne].
+      destruct (w_in _ _ _ _ _ _ H k' Hk') as [E1 E2]. split; [exact E1|].
+      apply Nat.eqb_neq in Hne. rewrite Hne. exact E2.
+    - apply NoDup_filter. exact (w_nd _ _ _ _ _ _ H).
+    - intros G k'. destruct (Nat.eqb k' k); [reflexivity|apply (g_off _ _ _ _ _ _ H G)]. }
+  pose proof (s_cnt _ _ _ _ _ _ H) as Hcnt.
+  destruct (mem k (waiting x)) eqn:M.
+  - apply mem_In in M. destruct (w_in _ _ _ _ _ _ H k M) as [K1 _].
+    pose proof (length_remove_id k (waiting x) (w_nd _ _ _ _ _ _ H) M) as L.
+    apply call_inner_ok.
+    + apply Hb1. lia.
+    + exact Hd.
+    + exact Hb.
+    + unfold x1. cbn. lia.
+    + unfold x1. cbn. intros Hin. apply in_remove_id in Hin. destruct Hin as [_ Hin]. congruence.
+    + unfold x1. cbn. intros Hin. apply in_map_iff in Hin. destruct Hin as [[k' s] [E Hin]]. cbn in E. subst k'.
+      destruct (s_in _ _ _ _ _ _ H _ _ Hin) as (_ & E & _). contradiction.
+    + unfold x1. cbn. intros Es. exfalso.
+      pose proof (s_pr _ _ _ _ _ _ H ltac:(lia)) as P. rewrite Es in P. cbn in P. lia.
+    + intros G. rewrite (g_off _ _ _ _ _ _ H G k) in R. discriminate.
+  - assert (Hn : ~ In k (waiting x)).
+    { intros Hin. apply mem_In in Hin. congruence. }
+    pose proof (remove_id_notin k (waiting x) Hn) as Er.
+    split; [apply Hb1; rewrite Er; lia|split; [|split]].
+    + exact Hd.
+    + intros E Cl. apply (Hc E). apply closed_spec. apply closed_spec in Cl.
+      destruct Cl as (C1 & C2 & C3). unfold x1 in C1, C2, C3. cbn in C1, C2, C3. rewrite Er in C2.
+      split; [exact C1|]. split; [exact C2|exact C3].
     + exact Hb.
 Qed.
 
@@ -508,23 +764,23 @@ Lemma drop_ok c i now x : Cfull c i now 0 x -> Cfull c i now 0 (drop_call x).
 Proof.
   intros (H & Hd & Hc & Hb).
   assert (Hgo : ph x <> Done -> Cfull c i now 0
-            (mkCall Dropped (t0 x) (sp x) (errs x) (perr x) (dline x) (queue x) (starts x) (gate x)
-                    false (dlog x) (cons x) (res x))).
+            (mkCall Dropped (t0 x) (sp x) (errs x) (perr x) (dline x) (queue x) (launch x) (waiting x)
+                    (rdy x) (starts x) (gate x) false (dlog x) (cons x) (res x))).
   { intros Hnd.
     assert (Hnp : forall y, ph y = Dropped -> ~ pending y) by (intros y E [P|P]; congruence).
     assert (Hres : forall r0 v0 tau, res x <> Some (r0, v0, tau)).
-    { intros r0 v0 tau E. destruct (e_res _ _ _ _ _ H _ _ _ E) as [E1 _]. contradiction. }
+    { intros r0 v0 tau E. destruct (e_res _ _ _ _ _ _ H _ _ _ E) as [E1 _]. contradiction. }
     split; [|split; [|split]].
-    - pose proof H as H0. destruct H0.
-      constructor; cbn [ph t0 sp errs perr dline queue starts gate woken dlog cons res];
-        unfold es in *; cbn [starts]; try assumption; try (intros; discriminate);
+    - open_base H.
+      constructor; cbn [ph t0 sp errs perr dline queue launch waiting rdy starts gate woken dlog cons res];
+        unfold es in *; cbn [launch]; try assumption; try (intros; discriminate);
         try (intros P; exfalso; revert P; apply Hnp; reflexivity);
         try (intros ? ? E; exfalso; revert E; apply Hres);
         try (intros ? ? ? E; exfalso; revert E; apply Hres).
     - intros P. exfalso. revert P. apply Hnp. reflexivity.
     - intros E. discriminate.
     - intros E. discriminate. }
-  unfold drop_call. destruct (ph x) eqn:P; try (apply Hgo; discriminate);
+  unfold drop_call. destruct (ph x) eqn:P; try (apply Hgo; congruence);
     exact (conj H (conj Hd (conj Hc Hb))).
 Qed.
 
@@ -533,14 +789,16 @@ Lemma advance_ok c i now t1 x :
   now <= t1 -> Cfull c i now 0 x -> Cfull c i t1 0 (advance_call c now t1 x).
 Proof.
   intros Ht (H & Hd & Hc & Hb). unfold advance_call. split; [|split; [|split]].
-  - pose proof H as H0. destruct H0.
-    constructor; cbn [ph t0 sp errs perr dline queue starts gate woken dlog cons res];
-      unfold es in *; cbn [starts repeat] in *; try assumption.
-    + eapply Forall_impl; [|exact (b_le _ _ _ _ _ H)]. cbn. intros; lia.
-    + intros m tau Hin. destruct (c_ent _ _ _ _ _ H m tau Hin) as (E1 & E2 & E3 & E4).
+  - open_base H.
+    constructor; cbn [ph t0 sp errs perr dline queue launch waiting rdy starts gate woken dlog cons res];
+      unfold es in *; cbn [launch repeat] in *; try assumption.
+    + eapply Forall_impl; [|exact (b_le _ _ _ _ _ _ H)]. cbn. intros; lia.
+    + intros k s Hin. destruct (s_in _ _ _ _ _ _ H k s Hin) as (E1 & E2 & E3).
       repeat split; try assumption; lia.
-    + intros P Q. rewrite (d_wk _ _ _ _ _ H P Q). reflexivity.
-    + intros r0 v0 tau E. destruct (e_res _ _ _ _ _ H r0 v0 tau E) as [E1 E2]. split; [exact E1|lia].
+    + intros m tau Hin. destruct (c_ent _ _ _ _ _ _ H m tau Hin) as (n0 & s & E1 & E2 & E3 & E4).
+      exists n0, s. repeat split; try assumption; lia.
+    + intros P Q. rewrite (d_wk _ _ _ _ _ _ H P Q). reflexivity.
+    + intros r0 v0 tau E. destruct (e_res _ _ _ _ _ _ H r0 v0 tau E) as [E1 E2]. split; [exact E1|lia].
   - exact Hd.
   - intros E Cl. cbn in E. cbn [woken]. rewrite Hc; [reflexivity|exact E|].
     rewrite <- Cl. reflexivity.
@@ -554,7 +812,7 @@ Qed.
 
 (* ---------- the call future resolves ---------- *)
 Lemma resolve_ok c i now n x r v cs rest e pe :
-  Cbase c i now n x ->
+  Cbase c i now n 0 x ->
   cons x ++ queue x = cs ++ rest ->
   (r = 1 -> exists k t1, find it_ok (map fst (dlog x)) = Some (k, true, v) /\
                          In ((k, true, v), t1) (dlog x) /\ t1 <= now) ->
@@ -564,11 +822,11 @@ Proof.
   intros H Hlog Hok Hfail. unfold resolve.
   assert (Hnp : forall y, ph y = Done -> ~ pending y) by (intros y E [P|P]; congruence).
   split; [|split; [|split]].
-  - pose proof H as H0. destruct H0.
-    constructor; cbn [ph t0 sp errs perr dline queue starts gate woken dlog cons res];
-      unfold es in *; cbn [starts]; try assumption; try (intros; discriminate);
+  - open_base H.
+    constructor; cbn [ph t0 sp errs perr dline queue launch waiting rdy starts gate woken dlog cons res];
+      unfold es in *; cbn [launch]; try assumption; try (intros; discriminate);
       try (intros P; exfalso; revert P; apply Hnp; reflexivity).
-    + rewrite (c_log _ _ _ _ _ H). exact Hlog.
+    + rewrite (c_log _ _ _ _ _ _ H). exact Hlog.
     + intros r0 v0 tau E. injection E as -> -> ->. split; [reflexivity|lia].
     + intros v0 tau E. injection E as -> -> ->. apply Hok. reflexivity.
     + intros e0 tau E. injection E as -> -> ->. apply Hfail. reflexivity.
@@ -577,23 +835,23 @@ Proof.
   - intros E. discriminate.
 Qed.
 
-Lemma in_log c i now n x m :
-  Cbase c i now n x -> In m (cons x ++ queue x) -> exists tau, In (m, tau) (dlog x).
+Lemma in_log c i now n h x m :
+  Cbase c i now n h x -> In m (cons x ++ queue x) -> exists tau, In (m, tau) (dlog x).
 Proof.
-  intros H Hin. rewrite <- (c_log _ _ _ _ _ H) in Hin. apply in_map_iff in Hin.
+  intros H Hin. rewrite <- (c_log _ _ _ _ _ _ H) in Hin. apply in_map_iff in Hin.
   destruct Hin as [[m' tau] [E Hin]]. cbn in E. subst m'. exists tau. exact Hin.
 Qed.
 
-Lemma dlog_len c i now n x : Cbase c i now n x -> (length (dlog x) <= length (starts x))%nat.
+Lemma dlog_len c i now n h x : Cbase c i now n h x -> (length (dlog x) <= length (starts x))%nat.
 Proof.
-  intros H. rewrite <- (map_length att). apply nodup_below_len; [apply (c_nd _ _ _ _ _ H)|].
-  intros k Hk. apply in_map_iff in Hk. destruct Hk as [[m tau] [E Hin]].
-  destruct (c_ent _ _ _ _ _ H m tau Hin) as (E1 & _). unfold att in E. cbn in E. lia.
+  intros H. rewrite <- (map_length att), <- (map_length fst (starts x)).
+  apply NoDup_incl_length; [apply (c_nd _ _ _ _ _ _ H)|].
+  intros k Hk. apply (att_owner c i now n h x k H Hk).
 Qed.
 
 (* the success case of both receive loops *)
 Lemma ok_found c i now n x pre m rest :
-  Cbase c i now n x -> pending x ->
+  Cbase c i now n 0 x -> pending x ->
   queue x = pre ++ m :: rest -> Forall is_err pre -> it_ok m = true ->
   exists k t1, find it_ok (map fst (dlog x)) = Some (k, true, it_val m) /\
                In ((k, true, it_val m), t1) (dlog x) /\ t1 <= now.
@@ -601,12 +859,12 @@ Proof.
   intros H Hp Hq Hpre Hm.
   assert (Hin : In m (cons x ++ queue x)).
   { rewrite Hq. apply in_or_app. right. apply in_or_app. right. left. reflexivity. }
-  destruct (in_log _ _ _ _ _ _ H Hin) as [t1 Ht1].
+  destruct (in_log _ _ _ _ _ _ _ H Hin) as [t1 Ht1].
   destruct m as [[k ok] v0]. cbn in Hm. subst ok. exists k, t1. cbn [it_val snd].
   split; [|split; [exact Ht1|]].
-  - rewrite (c_log _ _ _ _ _ H), Hq. rewrite find_skip by (apply (c_err _ _ _ _ _ H Hp)).
+  - rewrite (c_log _ _ _ _ _ _ H), Hq. rewrite find_skip by (apply (c_err _ _ _ _ _ _ H Hp)).
     rewrite find_skip by exact Hpre. reflexivity.
-  - destruct (c_ent _ _ _ _ _ H _ _ Ht1) as (_ & _ & _ & E). lia.
+  - destruct (c_ent _ _ _ _ _ _ H _ _ Ht1) as (n0 & s & _ & _ & _ & E). lia.
 Qed.
 
 Lemma spaced_extend c l now d :
@@ -630,86 +888,103 @@ Proof. destruct m as [[k ok] v]. reflexivity. Qed.
 
 (* every one of the max attempts has delivered an error *)
 Lemma all_errors c i now n x :
-  Cbase c i now n x -> Forall is_err (cons x ++ queue x) ->
+  Cbase c i now n 0 x -> Forall is_err (cons x ++ queue x) ->
   (maxa c <= length (cons x ++ queue x))%nat ->
-  sp x = maxa c /\
-  forall k, (k < maxa c)%nat ->
-    exists tk, In ((k, false, val i k), tk) (dlog x) /\ gate x k = Some OErr /\ tk <= now.
+  length (launch x) = maxa c /\ length (starts x) = maxa c /\
+  forall n0, (n0 < maxa c)%nat ->
+    exists k tk, In ((k, false, val i n0), tk) (dlog x) /\ gate x n0 = Some OErr /\ tk <= now /\
+                 (n0 = 0%nat -> k = 0%nat).
 Proof.
   intros H Herr Hlen.
-  pose proof (dlog_len _ _ _ _ _ H) as L1. pose proof (a_len _ _ _ _ _ H) as L2.
-  pose proof (a_max _ _ _ _ _ H) as L3.
+  pose proof (dlog_len _ _ _ _ _ _ H) as L1. pose proof (a_len _ _ _ _ _ _ H) as L2.
+  pose proof (a_max _ _ _ _ _ _ H) as L3. pose proof (s_cnt _ _ _ _ _ _ H) as L5.
   assert (L4 : length (dlog x) = length (cons x ++ queue x)).
-  { rewrite <- (c_log _ _ _ _ _ H), map_length. reflexivity. }
-  split; [lia|]. intros k Hk.
+  { rewrite <- (c_log _ _ _ _ _ _ H), map_length. reflexivity. }
+  split; [lia|]. split; [lia|]. intros n0 Hn0.
+  destruct (nth_error (starts x) n0) as [[k s]|] eqn:K; [|apply nth_error_None in K; lia].
   assert (Hin : In k (map att (dlog x))).
-  { apply (nodup_below_full (map att (dlog x)) (maxa c)); [apply (c_nd _ _ _ _ _ H)| |rewrite map_length; lia|exact Hk].
-    intros j Hj. apply in_map_iff in Hj. destruct Hj as [[m tau] [E Hin]].
-    destruct (c_ent _ _ _ _ _ H m tau Hin) as (E1 & _). unfold att in E. cbn in E. lia. }
+  { assert (Hincl : incl (map fst (starts x)) (map att (dlog x))).
+    { apply NoDup_length_incl; [apply (c_nd _ _ _ _ _ _ H)|rewrite !map_length; lia|].
+      intros j Hj. apply (att_owner c i now n 0 x j H Hj). }
+    apply Hincl. apply in_map_iff. exists (k, s). split; [reflexivity|apply (nth_error_In _ _ K)]. }
   apply in_map_iff in Hin. destruct Hin as [[m tk] [E Hin]]. unfold att in E. cbn in E.
-  destruct (c_ent _ _ _ _ _ H m tk Hin) as (E1 & E2 & E3 & E4).
+  destruct (c_ent _ _ _ _ _ _ H m tk Hin) as (n1 & s1 & E1 & E2 & E3 & E4).
+  rewrite E in E1.
+  pose proof (owner_inj (starts x) (s_nd _ _ _ _ _ _ H) n1 n0 k s1 s E1 K) as En. subst n1.
   assert (Hm : is_err m).
-  { rewrite Forall_forall in Herr. apply Herr. rewrite <- (c_log _ _ _ _ _ H).
+  { rewrite Forall_forall in Herr. apply Herr. rewrite <- (c_log _ _ _ _ _ _ H).
     apply in_map_iff. exists (m, tk). split; [reflexivity|exact Hin]. }
-  unfold is_err in Hm. rewrite Hm in E2. cbn in E2. rewrite E in E2, E3.
-  exists tk. split; [|split; [exact E2|lia]].
-  rewrite (item_eta m) in Hin. rewrite E, Hm, E3 in Hin. exact Hin.
+  unfold is_err in Hm. rewrite Hm in E2. cbn in E2.
+  exists k, tk. split; [|split; [exact E2|split; [lia|]]].
+  - rewrite (item_eta m) in Hin. rewrite E, Hm, E3 in Hin. exact Hin.
+  - intros ->. apply (s_hd _ _ _ _ _ _ H k s K).
+Qed.
+
+(* a message of the primary carries the value of inner call 0 *)
+Lemma primary_val c i now n h x m :
+  Cbase c i now n h x -> In m (cons x ++ queue x) -> it_att m = 0%nat -> it_val m = val i 0.
+Proof.
+  intros H Hin E. destruct (in_log _ _ _ _ _ _ _ H Hin) as [tau Hin'].
+  destruct (c_ent _ _ _ _ _ _ H _ _ Hin') as (n0 & s & E1 & _ & E3 & _). rewrite E in E1.
+  destruct (nth_error (starts x) 0) as [[k0 s0]|] eqn:K0.
+  - destruct (s_hd _ _ _ _ _ _ H k0 s0 K0) as [Ek0 _]. subst k0.
+    pose proof (owner_inj (starts x) (s_nd _ _ _ _ _ _ H) n0 0 0%nat s s0 E1 K0). subst n0. exact E3.
+  - apply nth_error_None in K0. assert (n0 < length (starts x))%nat by (apply nth_error_Some; congruence). lia.
 Qed.
 
 Lemma lat_failed c i now n x pre m rest :
-  Cbase c i now n x -> ph x = Latency ->
+  Cbase c i now n 0 x -> ph x = Latency ->
   queue x = pre ++ m :: rest -> Forall is_err pre -> it_ok m = false ->
   (maxa c <= errs x + length pre + 1)%nat ->
   failed_spec c i x (match upd_pe (pre ++ [m]) (perr x) with Some e => e | None => it_val m end) now.
 Proof.
   intros H P Hq Hpre Hm Hmax.
   assert (Hp : pending x) by (left; exact P).
-  destruct (c_lat _ _ _ _ _ H P) as (Le & Lv & Ls).
-  pose proof (dlog_len _ _ _ _ _ H) as L1. pose proof (a_len _ _ _ _ _ H) as L2.
-  pose proof (a_max _ _ _ _ _ H) as L3.
+  destruct (c_lat _ _ _ _ _ _ H P) as (Le & Lv & Ls).
+  pose proof (dlog_len _ _ _ _ _ _ H) as L1. pose proof (a_len _ _ _ _ _ _ H) as L2.
+  pose proof (a_max _ _ _ _ _ _ H) as L3. pose proof (s_cnt _ _ _ _ _ _ H) as L5.
   assert (L4 : length (dlog x) = length (cons x ++ queue x)).
-  { rewrite <- (c_log _ _ _ _ _ H), map_length. reflexivity. }
+  { rewrite <- (c_log _ _ _ _ _ _ H), map_length. reflexivity. }
   assert (Hrest : rest = []).
   { rewrite Hq, !app_length in L4. cbn [length] in L4. destruct rest; [reflexivity|cbn [length] in L4; lia]. }
   subst rest.
   assert (Herr : Forall is_err (cons x ++ queue x)).
-  { rewrite Hq. apply Forall_app. split; [apply (c_err _ _ _ _ _ H Hp)|].
+  { rewrite Hq. apply Forall_app. split; [apply (c_err _ _ _ _ _ _ H Hp)|].
     apply Forall_app. split; [exact Hpre|]. constructor; [exact Hm|constructor]. }
-  destruct (all_errors c i now n x H Herr) as [Hsp Hall].
+  destruct (all_errors c i now n x H Herr) as (Hl & Hs & Hall).
   { rewrite Hq, !app_length. cbn [length]. lia. }
-  destruct (a_lat _ _ _ _ _ H P) as [Hl Hm1].
-  split; [exact Hsp|]. split; [|split].
-  - intros k Hk. destruct (Hall k Hk) as (tk & T1 & T2 & T3). exists OErr.
-    split; [exact T2|]. split; [discriminate|]. intros _. exists tk. split; [exact T1|exact T3].
+  destruct (a_lat _ _ _ _ _ _ H P) as [Hlm Hm1].
+  split; [exact Hl|]. split; [exact Hs|]. split; [|split].
+  - intros n0 Hn0. destruct (Hall n0 Hn0) as (k & tk & T1 & T2 & T3 & _). exists OErr.
+    split; [exact T2|]. split; [discriminate|]. intros _. exists k, tk. split; [exact T1|exact T3].
   - intros _ _. split.
-    + destruct (Hall 0%nat ltac:(lia)) as (tk & T1 & _).
+    + destruct (Hall 0%nat ltac:(lia)) as (k & tk & T1 & _ & _ & T4). specialize (T4 eq_refl). subst k.
       assert (Hin0 : In 0%nat (map it_att (cons x ++ queue x))).
-      { rewrite <- (c_log _ _ _ _ _ H), map_map. apply in_map_iff.
+      { rewrite <- (c_log _ _ _ _ _ _ H), map_map. apply in_map_iff.
         exists ((0%nat, false, val i 0), tk). split; [reflexivity|exact T1]. }
       rewrite Hq, map_app, in_app_iff in Hin0.
       assert (Hne : upd_pe (pre ++ [m]) (perr x) <> None).
       { apply upd_pe_some. destruct Hin0 as [Hin0|Hin0]; [right; apply Ls; exact Hin0|left; exact Hin0]. }
       destruct (upd_pe (pre ++ [m]) (perr x)) as [e0|] eqn:U; [|congruence].
       apply (upd_pe_val i (pre ++ [m]) (perr x)); [|exact Lv|exact U].
-      intros m' Hm'. destruct (in_log c i now n x m' H) as [tau Hin'].
-      { rewrite Hq. apply in_or_app. right. exact Hm'. }
-      destruct (c_ent _ _ _ _ _ H _ _ Hin') as (_ & _ & E & _). exact E.
-    + intros k Hk. destruct (Hall k Hk) as (tk & _ & T2 & _). exact T2.
+      intros m' Hm' E'. apply (primary_val c i now n 0 x m' H); [|exact E'].
+      rewrite Hq. apply in_or_app. right. exact Hm'.
+    + intros n0 Hn0. destruct (Hall n0 Hn0) as (k & tk & _ & T2 & _). exact T2.
   - intros [E|E]; [congruence|lia].
 Qed.
 
 Lemma poll_lat_ok c i now n x :
-  Cbase c i now n x -> Cdlv x -> ph x = Latency ->
+  Cbase c i now n 0 x -> Cdlv x -> ph x = Latency ->
   let x1 := fst (fst (poll_latency c now x)) in
-  Cfull c i now (sp x1 - length (starts x1)) x1.
+  Cfull c i now (sp x1 - length (launch x1)) x1.
 Proof.
   intros H Hd P. unfold poll_latency.
   assert (Hp : pending x) by (left; exact P).
-  pose proof (a_len _ _ _ _ _ H) as Hlen.
+  pose proof (a_len _ _ _ _ _ _ H) as Hlen.
   pose proof (consume_lat_spec (maxa c) (queue x) (cons x) (errs x) (perr x)) as S.
   destruct (consume_lat (maxa c) (queue x) (cons x) (errs x) (perr x)) as [r v cs rest e pe|cs e pe].
   - cbn [fst]. destruct S as (pre & m & Hq & Hcs & Hpre & Hr).
-    replace (sp (resolve now x r v cs rest e pe) - length (starts (resolve now x r v cs rest e pe)))%nat
+    replace (sp (resolve now x r v cs rest e pe) - length (launch (resolve now x r v cs rest e pe)))%nat
       with n by (cbn; lia).
     apply resolve_ok; [exact H|rewrite Hq, Hcs, <- !app_assoc; reflexivity| |].
     + intros R. destruct Hr as [(R1 & R2 & R3)|(R1 & _)]; [|congruence]. subst v.
@@ -720,20 +995,20 @@ Proof.
     pose proof (fire_spec c now (maxa c) (sp x) (dline x) ltac:(lia)) as F.
     destruct (fire c now (maxa c) (sp x) (dline x)) as [s' dl']. cbn [fst].
     destruct F as (F1 & F2 & F3 & F4).
-    pose proof (a_max _ _ _ _ _ H) as Hmax. specialize (F2 Hmax).
-    pose proof (a_pos _ _ _ _ _ H Hp) as Hpos.
-    destruct (a_lat _ _ _ _ _ H P) as [Hl Hm1].
-    destruct (c_lat _ _ _ _ _ H P) as (Le & Lv & Ls).
-    pose proof (es_len _ _ _ _ _ H) as Hel.
-    cbn [sp starts].
-    replace (s' - length (starts x))%nat with (n + (s' - sp x))%nat by lia.
-    assert (Hes : starts x ++ repeat now (n + (s' - sp x)) = es now n x ++ repeat now (s' - sp x)).
+    pose proof (a_max _ _ _ _ _ _ H) as Hmax. specialize (F2 Hmax).
+    pose proof (a_pos _ _ _ _ _ _ H Hp) as Hpos.
+    destruct (a_lat _ _ _ _ _ _ H P) as [Hl Hm1].
+    destruct (c_lat _ _ _ _ _ _ H P) as (Le & Lv & Ls).
+    pose proof (es_len _ _ _ _ _ _ H) as Hel.
+    cbn [sp launch].
+    replace (s' - length (launch x))%nat with (n + (s' - sp x))%nat by lia.
+    assert (Hes : launch x ++ repeat now (n + (s' - sp x)) = es now n x ++ repeat now (s' - sp x)).
     { unfold es. rewrite repeat_app, app_assoc. reflexivity. }
     assert (Hallerr : Forall is_err (cons x ++ queue x)).
-    { apply Forall_app. split; [apply (c_err _ _ _ _ _ H Hp)|exact Herr]. }
+    { apply Forall_app. split; [apply (c_err _ _ _ _ _ _ H Hp)|exact Herr]. }
     split; [|split; [|split]].
-    + constructor; cbn [ph t0 sp errs perr dline queue starts gate woken dlog cons res];
-        try (unfold es at 1); cbn [starts]; rewrite ?Hes.
+    + constructor; cbn [ph t0 sp errs perr dline queue launch waiting rdy starts gate woken dlog cons res];
+        try (unfold es at 1); cbn [launch]; rewrite ?Hes.
       * lia.
       * exact F2.
       * discriminate.
@@ -741,45 +1016,53 @@ Proof.
       * intros _. split; assumption.
       * discriminate.
       * intros E. congruence.
-      * intros _. rewrite app_nth1 by lia. apply (b_t0 _ _ _ _ _ H Hpos).
-      * apply (b_le _ _ _ _ _ H).
+      * intros _. rewrite app_nth1 by lia. apply (b_t0 _ _ _ _ _ _ H Hpos).
+      * apply (b_le _ _ _ _ _ _ H).
       * intros _. apply spaced_extend.
-        -- apply (b_sp _ _ _ _ _ H Hl).
+        -- apply (b_sp _ _ _ _ _ _ H Hl).
         -- lia.
         -- intros D. rewrite Hel. destruct (F4 ltac:(lia)) as (G1 & _).
-           rewrite <- (b_dl _ _ _ _ _ H P ltac:(lia)). exact G1.
+           rewrite <- (b_dl _ _ _ _ _ _ H P ltac:(lia)). exact G1.
         -- intros j Hj. rewrite Hel in Hj. destruct (Nat.eq_dec s' (sp x)) as [E|E]; [lia|].
            destruct (F4 ltac:(lia)) as (_ & G2 & _). apply G2. lia.
       * intros E. congruence.
       * intros _ S1. destruct (Nat.eq_dec s' (sp x)) as [E|E].
         -- destruct (F3 E) as [G1 _]. rewrite G1, E. replace (sp x - sp x)%nat with 0%nat by lia.
-           cbn [repeat]. rewrite app_nil_r. apply (b_dl _ _ _ _ _ H P). lia.
+           cbn [repeat]. rewrite app_nil_r. apply (b_dl _ _ _ _ _ _ H P). lia.
         -- destruct (F4 ltac:(lia)) as (_ & _ & G3). destruct (G3 S1) as [G4 _]. rewrite G4.
            rewrite (nth_app_repeat (es now n x) now (s' - sp x) 0 (s' - 1)) by lia. reflexivity.
-      * rewrite app_nil_r, Hcs. apply (c_log _ _ _ _ _ H).
-      * apply (c_ent _ _ _ _ _ H).
-      * apply (c_nd _ _ _ _ _ H).
+      * apply (s_cnt _ _ _ _ _ _ H).
+      * apply (s_nd _ _ _ _ _ _ H).
+      * apply (s_in _ _ _ _ _ _ H).
+      * apply (s_hd _ _ _ _ _ _ H).
+      * apply (s_pr _ _ _ _ _ _ H).
+      * apply (w_in _ _ _ _ _ _ H).
+      * apply (w_nd _ _ _ _ _ _ H).
+      * apply (g_off _ _ _ _ _ _ H).
+      * apply (g_seq _ _ _ _ _ _ H).
+      * rewrite app_nil_r, Hcs. apply (c_log _ _ _ _ _ _ H).
+      * apply (c_ent _ _ _ _ _ _ H).
+      * apply (c_nd _ _ _ _ _ _ H).
       * intros _. rewrite Hcs. exact Hallerr.
       * intros _. split; [|split].
         -- rewrite He, Hcs, app_length. lia.
         -- rewrite Hpe. apply upd_pe_val; [|exact Lv].
-           intros m' Hm'. destruct (in_log c i now n x m' H) as [tau Hin'].
-           { apply in_or_app. right. exact Hm'. }
-           destruct (c_ent _ _ _ _ _ H _ _ Hin') as (_ & _ & E & _). exact E.
+           intros m' Hm' E'. apply (primary_val c i now n 0 x m' H); [|exact E'].
+           apply in_or_app. right. exact Hm'.
         -- rewrite Hcs, Hpe, map_app, in_app_iff. intros Hin. apply upd_pe_some.
            destruct Hin as [Hin|Hin]; [right; apply Ls; exact Hin|left; exact Hin].
       * discriminate.
       * intros _ Q. congruence.
-      * intros r0 v0 tau E. destruct (e_res _ _ _ _ _ H _ _ _ E) as [E1 _]. congruence.
-      * intros v0 tau E. destruct (e_res _ _ _ _ _ H _ _ _ E) as [E1 _]. congruence.
-      * intros e0 tau E. destruct (e_res _ _ _ _ _ H _ _ _ E) as [E1 _]. congruence.
+      * intros r0 v0 tau E. destruct (e_res _ _ _ _ _ _ H _ _ _ E) as [E1 _]. congruence.
+      * intros v0 tau E. destruct (e_res _ _ _ _ _ _ H _ _ _ E) as [E1 _]. congruence.
+      * intros e0 tau E. destruct (e_res _ _ _ _ _ _ H _ _ _ E) as [E1 _]. congruence.
       * intros _ v0 tau Hin _. exfalso.
         rewrite Forall_forall in Hallerr. specialize (Hallerr (0%nat, true, v0)).
-        rewrite <- (c_log _ _ _ _ _ H) in Hallerr.
+        rewrite <- (c_log _ _ _ _ _ _ H) in Hallerr.
         assert (Hx : is_err (0%nat, true, v0)).
         { apply Hallerr. apply in_map_iff. exists ((0%nat, true, v0), tau). split; [reflexivity|exact Hin]. }
         discriminate Hx.
-    + intros _ k o Hk Hg Ho. cbn [starts gate dlog] in *. apply (Hd Hp k o); assumption.
+    + intros _ n0 k s o Hk Hg Ho. cbn [starts gate dlog] in *. apply (Hd Hp n0 k s o); assumption.
     + intros E. discriminate.
     + intros _ S1 D. cbn [sp dline] in S1, D. exfalso.
       destruct (Nat.eq_dec s' (sp x)) as [E|E].
@@ -788,36 +1071,41 @@ Proof.
 Qed.
 
 Lemma drain_failed c i now n x ev :
-  Cbase c i now n x -> Cdlv x -> ph x = Drain -> closed x = true -> Forall is_err (queue x) ->
+  Cbase c i now n 0 x -> Cdlv x -> ph x = Drain -> closed x = true -> Forall is_err (queue x) ->
   hd_pe (cons x ++ queue x) = Some ev ->
   failed_spec c i x ev now.
 Proof.
   intros H Hd P Cl Herr Hhd.
   assert (Hp : pending x) by (right; exact P).
-  apply closed_spec in Cl. destruct Cl as [C1 C2].
-  destruct (a_drain _ _ _ _ _ H P) as [Hsp Hmode].
+  apply closed_spec in Cl. destruct Cl as (C1 & C2 & C3).
+  destruct (a_drain _ _ _ _ _ _ H P) as [Hsp Hmode].
+  pose proof (s_cnt _ _ _ _ _ _ H) as Hcnt. rewrite C2 in Hcnt. cbn in Hcnt.
   assert (Hall : Forall is_err (cons x ++ queue x)).
-  { apply Forall_app. split; [apply (c_err _ _ _ _ _ H Hp)|exact Herr]. }
-  assert (Hent : forall k o, (k < maxa c)%nat -> gate x k = Some o -> o <> OPanic ->
-             o = OErr /\ exists tk, In ((k, false, val i k), tk) (dlog x) /\ tk <= now).
-  { intros k o Hk G Ho. pose proof (Hd Hp k o ltac:(lia) G Ho) as Hin.
+  { apply Forall_app. split; [apply (c_err _ _ _ _ _ _ H Hp)|exact Herr]. }
+  assert (Hent : forall n0 k s o, nth_error (starts x) n0 = Some (k, s) -> gate x n0 = Some o -> o <> OPanic ->
+             o = OErr /\ exists tk, In ((k, false, val i n0), tk) (dlog x) /\ tk <= now).
+  { intros n0 k s o K G Ho. pose proof (Hd Hp n0 k s o K G Ho) as Hin.
     apply in_map_iff in Hin. destruct Hin as [[m tk] [E Hin]]. unfold att in E. cbn in E.
-    destruct (c_ent _ _ _ _ _ H m tk Hin) as (E1 & E2 & E3 & E4).
+    destruct (c_ent _ _ _ _ _ _ H m tk Hin) as (n1 & s1 & E1 & E2 & E3 & E4).
+    rewrite E in E1.
+    pose proof (owner_inj (starts x) (s_nd _ _ _ _ _ _ H) n1 n0 k s1 s E1 K) as En. subst n1.
     assert (Hm : is_err m).
-    { rewrite Forall_forall in Hall. apply Hall. rewrite <- (c_log _ _ _ _ _ H).
+    { rewrite Forall_forall in Hall. apply Hall. rewrite <- (c_log _ _ _ _ _ _ H).
       apply in_map_iff. exists (m, tk). split; [reflexivity|exact Hin]. }
-    unfold is_err in Hm. rewrite Hm in E2. cbn in E2. rewrite E in E2, E3.
+    unfold is_err in Hm. rewrite Hm in E2. cbn in E2.
     split; [congruence|]. exists tk. split; [|lia].
     rewrite (item_eta m) in Hin. rewrite E, Hm, E3 in Hin. exact Hin. }
-  split; [exact Hsp|]. split; [|split].
-  - intros k Hk. destruct (gate x k) as [o|] eqn:G; [|exfalso; apply (C2 k); [lia|exact G]].
+  split; [lia|]. split; [lia|]. split; [|split].
+  - intros n0 Hn0.
+    destruct (nth_error (starts x) n0) as [[k s]|] eqn:K; [|apply nth_error_None in K; lia].
+    destruct (gate x n0) as [o|] eqn:G; [|exfalso; apply (C3 n0); [lia|exact G]].
     exists o. split; [reflexivity|].
     destruct o.
-    + destruct (Hent k OOk Hk G ltac:(discriminate)) as [E _]. discriminate.
-    + split; [discriminate|]. intros _. apply (Hent k OErr Hk G). discriminate.
+    + destruct (Hent n0 k s OOk K G ltac:(discriminate)) as [E _]. discriminate.
+    + split; [discriminate|]. intros _. exists k. apply (Hent n0 k s OErr K G). discriminate.
     + split; [discriminate|]. intros E. discriminate.
   - intros L M. destruct Hmode as [E|E]; [congruence|lia].
-  - intros _. pose proof (c_log _ _ _ _ _ H) as Hlog.
+  - intros _. pose proof (c_log _ _ _ _ _ _ H) as Hlog.
     destruct (cons x ++ queue x) as [|m l] eqn:Ecq; [discriminate|]. cbn in Hhd. injection Hhd as Ev.
     destruct (dlog x) as [|[m' tk] rest] eqn:Ed; [discriminate|]. cbn in Hlog. injection Hlog as Em El.
     subst m'. inversion Hall as [|? ? Hm _]; subst. unfold is_err in Hm.
@@ -825,16 +1113,16 @@ Proof.
 Qed.
 
 Lemma poll_drain_ok c i now n x :
-  Cbase c i now n x -> Cdlv x -> ph x = Drain ->
+  Cbase c i now n 0 x -> Cdlv x -> ph x = Drain ->
   let x1 := fst (fst (poll_drain now x)) in
-  Cfull c i now (sp x1 - length (starts x1)) x1.
+  Cfull c i now (sp x1 - length (launch x1)) x1.
 Proof.
   intros H Hd P. unfold poll_drain.
   assert (Hp : pending x) by (right; exact P).
-  pose proof (a_len _ _ _ _ _ H) as Hlen.
-  pose proof (consume_drain_spec (queue x) (cons x) (errs x) (perr x) (c_drn _ _ _ _ _ H P)) as S.
+  pose proof (a_len _ _ _ _ _ _ H) as Hlen.
+  pose proof (consume_drain_spec (queue x) (cons x) (errs x) (perr x) (c_drn _ _ _ _ _ _ H P)) as S.
   assert (Hn : forall r v cs rest e pe,
-     (sp (resolve now x r v cs rest e pe) - length (starts (resolve now x r v cs rest e pe)))%nat = n).
+     (sp (resolve now x r v cs rest e pe) - length (launch (resolve now x r v cs rest e pe)))%nat = n).
   { intros. cbn. lia. }
   destruct (consume_drain (queue x) (cons x) (errs x) (perr x)) as [r v cs rest e pe|cs e pe].
   - cbn [fst]. destruct S as (pre & m & Hq & Hcs & Hpre & R1 & R2 & R3). rewrite Hn.
@@ -847,45 +1135,49 @@ Proof.
       * apply resolve_ok; [exact H|rewrite Hcs, app_nil_r; reflexivity|intros R; discriminate|].
         intros _. apply (drain_failed c i now n x ev); try assumption. rewrite <- Hcs. symmetry. exact Hpe.
       * apply resolve_ok; [exact H|rewrite Hcs, app_nil_r; reflexivity|intros R; discriminate|intros R; discriminate].
-    + cbn [fst sp starts]. replace (sp x - length (starts x))%nat with n by lia.
+    + cbn [fst sp launch]. replace (sp x - length (launch x))%nat with n by lia.
       split; [|split; [|split]].
-      * pose proof H as H0. destruct H0.
-        constructor; cbn [ph t0 sp errs perr dline queue starts gate woken dlog cons res];
-          unfold es in *; cbn [starts]; try assumption; try (intros; discriminate).
-        -- intros _. apply (a_pos _ _ _ _ _ H). exact Hp.
-        -- intros _. apply (a_drain _ _ _ _ _ H). exact P.
-        -- rewrite app_nil_r, Hcs. exact (c_log _ _ _ _ _ H).
-        -- intros _. rewrite Hcs. apply Forall_app. split; [apply (c_err _ _ _ _ _ H); exact Hp|exact Herr].
+      * open_base H.
+        constructor; cbn [ph t0 sp errs perr dline queue launch waiting rdy starts gate woken dlog cons res];
+          unfold es in *; cbn [launch]; try assumption; try (intros; discriminate).
+        -- intros _. apply (a_pos _ _ _ _ _ _ H). exact Hp.
+        -- intros _. apply (a_drain _ _ _ _ _ _ H). exact P.
+        -- rewrite app_nil_r, Hcs. exact (c_log _ _ _ _ _ _ H).
+        -- intros _. rewrite Hcs. apply Forall_app. split; [apply (c_err _ _ _ _ _ _ H); exact Hp|exact Herr].
         -- intros _. exact Hpe.
         -- intros _ Q. congruence.
-        -- intros r0 v0 tau E. destruct (e_res _ _ _ _ _ H r0 v0 tau E) as [E1 _]. congruence.
-      * intros _ k o Hk Hg Ho. cbn [starts gate dlog] in *. apply (Hd Hp k o); assumption.
+        -- intros r0 v0 tau E. destruct (e_res _ _ _ _ _ _ H r0 v0 tau E) as [E1 _]. congruence.
+      * intros _ n0 k s o Hk Hg Ho. cbn [starts gate dlog] in *. apply (Hd Hp n0 k s o); assumption.
       * intros _ Cl'. exfalso. change (closed x = true) in Cl'. congruence.
       * intros E. discriminate.
 Qed.
 
 Lemma begin_ok c i now x :
-  (1 <= maxa c)%nat -> Cbase c i now 0 x -> ph x = Created ->
+  (1 <= maxa c)%nat -> Cbase c i now 0 0 x -> ph x = Created ->
   let x0 := begin c now x in
-  Cbase c i now (sp x0) x0 /\ Cdlv x0 /\ (ph x0 = Latency \/ ph x0 = Drain).
+  Cbase c i now (sp x0) 0 x0 /\ Cdlv x0 /\ (ph x0 = Latency \/ ph x0 = Drain).
 Proof.
   intros Hm H P.
-  destruct (a_created _ _ _ _ _ H P) as (E1 & E2 & E3 & E4).
-  pose proof (a_len _ _ _ _ _ H) as E5. rewrite E1, Nat.add_0_r in E5. apply length_zero_iff_nil in E5.
+  destruct (a_created _ _ _ _ _ _ H P) as (E1 & E2 & E3 & E4).
+  pose proof (a_len _ _ _ _ _ _ H) as E5. rewrite E1, Nat.add_0_r in E5. apply length_zero_iff_nil in E5.
+  pose proof (s_cnt _ _ _ _ _ _ H) as E6. rewrite E5 in E6. cbn in E6.
+  assert (E7 : starts x = []) by (apply length_zero_iff_nil; lia).
+  assert (E8 : waiting x = []) by (apply length_zero_iff_nil; lia).
   assert (Hres : forall r0 v0 tau, res x <> Some (r0, v0, tau)).
-  { intros r0 v0 tau E. destruct (e_res _ _ _ _ _ H _ _ _ E) as [E6 _]. congruence. }
+  { intros r0 v0 tau E. destruct (e_res _ _ _ _ _ _ H _ _ _ E) as [E9 _]. congruence. }
   assert (Hrep : forall k, Forall (eq now) (repeat now k)).
   { intros k. apply Forall_forall. intros t Ht. apply repeat_spec in Ht. congruence. }
   assert (Hcd : forall y, starts y = [] -> Cdlv y).
-  { intros y Ey _ k o Hk. rewrite Ey in Hk. cbn in Hk. lia. }
+  { intros y Ey _ n0 k s o Hk. rewrite Ey in Hk. destruct n0; discriminate. }
   assert (Hsp1 : forall l, (length l <= 1)%nat -> spaced c l).
   { intros l Hl k Hk. lia. }
   unfold begin. destruct (1 <? maxa c)%nat eqn:M; [destruct (latency_mode c) eqn:L|].
-  - apply Nat.ltb_lt in M. split; [|split; [apply Hcd; apply E5|left; reflexivity]].
-    constructor; cbn [ph t0 sp errs perr dline queue starts gate woken dlog cons res];
-      unfold es; cbn [starts]; rewrite ?E2, ?E3, ?E4, ?E5; cbn [repeat app length map nth];
+  - apply Nat.ltb_lt in M. split; [|split; [apply Hcd; apply E7|left; reflexivity]].
+    constructor; cbn [ph t0 sp errs perr dline queue launch waiting rdy starts gate woken dlog cons res];
+      unfold es; cbn [launch]; rewrite ?E2, ?E3, ?E4, ?E5, ?E7, ?E8; cbn [repeat app length map nth];
       try (intros; discriminate); try lia; try reflexivity; try (constructor; fail);
-      try (intros ? ? []; fail); try (intros ? ? ? []; fail);
+      try (intros ? []; fail); try (intros ? ? []; fail); try (intros ? ? ? []; fail);
+      try (exact (g_off _ _ _ _ _ _ H)); try (intros ? [|?] ? ? E; discriminate E);
       try (intros ? ? ? E; exfalso; exact (Hres _ _ _ E));
       try (intros ? ? E; exfalso; exact (Hres _ _ _ E));
       try (intros _ Q; congruence);
@@ -893,11 +1185,12 @@ Proof.
             | solve [intros _; split; [exact L|exact M]]
             | solve [intros _; apply Hsp1; cbn; lia]
             | solve [intros _; split; [reflexivity|split; [intros; discriminate|intros []]]] ].
-  - apply Nat.ltb_lt in M. split; [|split; [apply Hcd; apply E5|right; reflexivity]].
-    constructor; cbn [ph t0 sp errs perr dline queue starts gate woken dlog cons res];
-      unfold es; cbn [starts]; rewrite ?E2, ?E3, ?E4, ?E5; cbn [app length map];
+  - apply Nat.ltb_lt in M. split; [|split; [apply Hcd; apply E7|right; reflexivity]].
+    constructor; cbn [ph t0 sp errs perr dline queue launch waiting rdy starts gate woken dlog cons res];
+      unfold es; cbn [launch]; rewrite ?E2, ?E3, ?E4, ?E5, ?E7, ?E8; cbn [app length map];
       try (intros; discriminate); try lia; try reflexivity; try (constructor; fail);
-      try (intros ? ? []; fail); try (intros ? ? ? []; fail);
+      try (intros ? []; fail); try (intros ? ? []; fail); try (intros ? ? ? []; fail);
+      try (exact (g_off _ _ _ _ _ _ H)); try (intros ? [|?] ? ? E; discriminate E);
       try (intros ? ? ? E; exfalso; exact (Hres _ _ _ E));
       try (intros ? ? E; exfalso; exact (Hres _ _ _ E));
       try (intros _ Q; congruence);
@@ -907,11 +1200,12 @@ Proof.
             | solve [intros _; apply Hrep]
             | solve [intros; reflexivity] ].
   - apply Nat.ltb_ge in M. assert (M1 : maxa c = 1%nat) by lia.
-    split; [|split; [apply Hcd; apply E5|right; reflexivity]].
-    constructor; cbn [ph t0 sp errs perr dline queue starts gate woken dlog cons res];
-      unfold es; cbn [starts]; rewrite ?E2, ?E3, ?E4, ?E5; cbn [repeat app length map nth];
+    split; [|split; [apply Hcd; apply E7|right; reflexivity]].
+    constructor; cbn [ph t0 sp errs perr dline queue launch waiting rdy starts gate woken dlog cons res];
+      unfold es; cbn [launch]; rewrite ?E2, ?E3, ?E4, ?E5, ?E7, ?E8; cbn [repeat app length map nth];
       try (intros; discriminate); try lia; try reflexivity; try (constructor; fail);
-      try (intros ? ? []; fail); try (intros ? ? ? []; fail);
+      try (intros ? []; fail); try (intros ? ? []; fail); try (intros ? ? ? []; fail);
+      try (exact (g_off _ _ _ _ _ _ H)); try (intros ? [|?] ? ? E; discriminate E);
       try (intros ? ? ? E; exfalso; exact (Hres _ _ _ E));
       try (intros ? ? E; exfalso; exact (Hres _ _ _ E));
       try (intros _ Q; congruence);
@@ -925,11 +1219,11 @@ Qed.
 Lemma poll_body_ok c i now x :
   (1 <= maxa c)%nat -> Cfull c i now 0 x ->
   let x1 := fst (fst (poll_body c now x)) in
-  Cfull c i now (sp x1 - length (starts x1)) x1.
+  Cfull c i now (sp x1 - length (launch x1)) x1.
 Proof.
   intros Hm (H & Hd & Hc & Hb). unfold poll_body.
-  assert (Hsame : Cfull c i now (sp x - length (starts x)) x).
-  { pose proof (a_len _ _ _ _ _ H) as L. replace (sp x - length (starts x))%nat with 0%nat by lia.
+  assert (Hsame : Cfull c i now (sp x - length (launch x)) x).
+  { pose proof (a_len _ _ _ _ _ _ H) as L. replace (sp x - length (launch x))%nat with 0%nat by lia.
     exact (conj H (conj Hd (conj Hc Hb))). }
   destruct (ph x) eqn:P.
   - destruct (begin_ok c i now x Hm H P) as (B1 & B2 & [B3|B3]); rewrite B3.
@@ -958,14 +1252,16 @@ Proof. unfold upd. rewrite Nat.eqb_refl. reflexivity. Qed.
 Lemma upd_other {A} (f : nat -> A) i v j : j <> i -> upd f i v j = f j.
 Proof. intros H. unfold upd. apply Nat.eqb_neq in H. rewrite H. reflexivity. Qed.
 
-Lemma inv_init c : Inv c init.
+Lemma inv_init c : Inv c (init c).
 Proof.
   intros j. cbn. split; [|split; [|split]].
   - constructor; cbn; try (intros; discriminate); try lia; try (constructor; fail);
-      try (intros ? ? []; fail); try (intros ? ? ? []; fail).
+      try (intros ? []; fail); try (intros ? ? []; fail); try (intros ? ? ? []; fail);
+      try (intros ? [|?] ? ? E; discriminate E).
     + intros _. repeat split.
     + intros [E|E]; discriminate.
     + intros _ k Hk. cbn in Hk. lia.
+    + intros G k. rewrite G. reflexivity.
     + intros [E|E]; discriminate.
   - intros [E|E]; discriminate.
   - intros E; discriminate.
@@ -974,7 +1270,7 @@ Qed.
 
 Lemma inv_step c s e : (1 <= maxa c)%nat -> Inv c s -> Inv c (step_st c s e).
 Proof.
-  intros Hm H j. unfold step_st, step. destruct e as [i|i|d|i k o].
+  intros Hm H j. unfold step_st, step. destruct e as [i|i|d|i k o|i k].
   - pose proof (poll_call_ok c i (now s) (calls s i) Hm (H i)) as B.
     destruct (poll_call c i (now s) (calls s i)) as [[x r0] v0]. cbn [fst now calls] in *.
     destruct (Nat.eq_dec j i) as [->|Hne]; [rewrite upd_same; exact B|rewrite upd_other by exact Hne; apply H].
@@ -983,75 +1279,115 @@ Proof.
   - cbn [fst now calls]. apply advance_ok; [lia|apply H].
   - cbn [fst now calls].
     destruct (Nat.eq_dec j i) as [->|Hne]; [rewrite upd_same; apply complete_ok; apply H|rewrite upd_other by exact Hne; apply H].
+  - cbn [fst now calls].
+    destruct (Nat.eq_dec j i) as [->|Hne]; [rewrite upd_same; apply ready_ok; apply H|rewrite upd_other by exact Hne; apply H].
 Qed.
 
-Lemma reach c evs : (1 <= maxa c)%nat -> Forall (Inv c) (states (step_st c) init evs).
+Lemma reach c evs : (1 <= maxa c)%nat -> Forall (Inv c) (states (step_st c) (init c) evs).
 Proof. intros Hm. apply reach_inv; [apply inv_init|intros s e; apply inv_step; exact Hm]. Qed.
 
-Lemma reach_last c evs : (1 <= maxa c)%nat -> Inv c (fold_left (step_st c) evs init).
+Lemma reach_last c evs : (1 <= maxa c)%nat -> Inv c (fold_left (step_st c) evs (init c)).
 Proof. intros Hm. apply fold_left_inv; [apply inv_init|intros s e; apply inv_step; exact Hm]. Qed.
 
 (* ================= the statements used by Props/C12.v ================= *)
 
 Lemma bounded_starts c evs i : (1 <= maxa c)%nat ->
   Forall (fun s => let x := calls s i in
-     (length (starts x) <= maxa c)%nat /\
+     (length (starts x) <= length (launch x))%nat /\ (length (launch x) <= maxa c)%nat /\
      (forall v tau, latency_mode c = true -> In ((0%nat, true, v), tau) (dlog x) ->
-         tau < t0 x + delay c 1 -> length (starts x) = 1%nat))
-  (states (step_st c) init evs).
+         tau < t0 x + delay c 1 -> length (launch x) = 1%nat /\ length (starts x) = 1%nat))
+  (states (step_st c) (init c) evs).
 Proof.
-  intros Hm. eapply Forall_impl; [|apply reach; exact Hm]. intros s H. cbn.
+  intros Hm. eapply Forall_impl; [|apply reach; exact Hm]. intros s H. cbv beta zeta.
   destruct (H i) as (B & _).
-  pose proof (a_len _ _ _ _ _ B) as L1. pose proof (a_max _ _ _ _ _ B) as L2.
-  split; [lia|]. intros v tau L Hin Hlt. pose proof (f_one _ _ _ _ _ B L v tau Hin Hlt). lia.
+  pose proof (a_len _ _ _ _ _ _ B) as L1. pose proof (a_max _ _ _ _ _ _ B) as L2.
+  pose proof (s_cnt _ _ _ _ _ _ B) as L3.
+  split; [lia|]. split; [lia|]. intros v tau L Hin Hlt.
+  pose proof (f_one _ _ _ _ _ _ B L v tau Hin Hlt).
+  pose proof (s_pr _ _ _ _ _ _ B ltac:(lia)). lia.
 Qed.
 
 Lemma spacing c evs i : (1 <= maxa c)%nat ->
   Forall (fun s => let x := calls s i in
-     (latency_mode c = true -> forall k, (S k < length (starts x))%nat ->
-          nth k (starts x) 0 + delay c (S k) <= nth (S k) (starts x) 0) /\
-     (latency_mode c = false -> (1 <= length (starts x))%nat ->
-          length (starts x) = maxa c /\ Forall (eq (t0 x)) (starts x)) /\
-     ((1 <= length (starts x))%nat -> nth 0 (starts x) 0 = t0 x) /\
-     (ph x = Latency -> (length (starts x) < maxa c)%nat ->
-          dline x = nth (length (starts x) - 1) (starts x) 0 + delay c (length (starts x)) /\
+     (latency_mode c = true -> forall k, (S k < length (launch x))%nat ->
+          nth k (launch x) 0 + delay c (S k) <= nth (S k) (launch x) 0) /\
+     (latency_mode c = false -> (1 <= length (launch x))%nat ->
+          length (launch x) = maxa c /\ Forall (eq (t0 x)) (launch x)) /\
+     ((1 <= length (launch x))%nat -> nth 0 (launch x) 0 = t0 x) /\
+     (forall k s0, In (k, s0) (starts x) ->
+          (k < length (launch x))%nat /\ nth k (launch x) 0 <= s0 <= now s) /\
+     (forall k s0, nth_error (starts x) 0 = Some (k, s0) -> k = 0%nat /\ s0 = t0 x) /\
+     (ph x = Latency -> (length (launch x) < maxa c)%nat ->
+          dline x = nth (length (launch x) - 1) (launch x) 0 + delay c (length (launch x)) /\
           (dline x <= now s -> woken x = true)))
-  (states (step_st c) init evs).
+  (states (step_st c) (init c) evs).
 Proof.
-  intros Hm. eapply Forall_impl; [|apply reach; exact Hm]. intros s H. cbn.
+  intros Hm. eapply Forall_impl; [|apply reach; exact Hm]. intros s H. cbv beta zeta.
   destruct (H i) as (B & _ & _ & Hb).
-  pose proof (a_len _ _ _ _ _ B) as L1. rewrite Nat.add_0_r in L1.
-  pose proof (b_sp _ _ _ _ _ B) as S1. pose proof (b_par _ _ _ _ _ B) as S2.
-  pose proof (b_t0 _ _ _ _ _ B) as S3. pose proof (b_dl _ _ _ _ _ B) as S4.
+  pose proof (a_len _ _ _ _ _ _ B) as L1. rewrite Nat.add_0_r in L1.
+  pose proof (b_sp _ _ _ _ _ _ B) as S1. pose proof (b_par _ _ _ _ _ _ B) as S2.
+  pose proof (b_t0 _ _ _ _ _ _ B) as S3. pose proof (b_dl _ _ _ _ _ _ B) as S4.
   unfold es in *. cbn [repeat] in *. rewrite app_nil_r in *. rewrite <- L1 in *.
-  split; [|split; [|split]].
+  split; [|split; [|split; [|split; [|split]]]].
   - intros L. apply (S1 L).
-  - intros L P. split; [|apply (S2 L)]. rewrite L1. apply (a_par _ _ _ _ _ B L). lia.
+  - intros L P. split; [|apply (S2 L)]. rewrite L1. apply (a_par _ _ _ _ _ _ B L). lia.
   - exact S3.
+  - intros k s0 Hin. destruct (s_in _ _ _ _ _ _ B k s0 Hin) as (E1 & _ & E3). split; assumption.
+  - intros k s0 E. destruct (s_hd _ _ _ _ _ _ B k s0 E) as [E1 E2]. split; [exact E1|].
+    rewrite E2. apply S3.
+    assert (In (k, s0) (starts (calls s i))) by (apply (nth_error_In _ _ E)).
+    destruct (s_in _ _ _ _ _ _ B k s0 H0) as (E3 & _). lia.
   - intros P Q. split; [apply (S4 P Q)|]. intros D. apply (Hb P); [lia|exact D].
 Qed.
 
-Lemma run_tasks_res i now n : forall x, res (run_tasks i now n x) = res x.
+(* which tasks wait for readiness; without back-pressure nobody waits and the inner calls
+   are made in attempt order at the launch instants *)
+Lemma readiness c evs i : (1 <= maxa c)%nat ->
+  Forall (fun s => let x := calls s i in
+     (length (starts x) + length (waiting x) = length (launch x))%nat /\
+     NoDup (map fst (starts x)) /\ NoDup (waiting x) /\
+     (forall k, In k (waiting x) ->
+        (1 <= k < length (launch x))%nat /\ rdy x k = false /\ ~ In k (map fst (starts x))) /\
+     (gated c = false -> waiting x = [] /\ length (starts x) = length (launch x) /\
+        forall n k s0, nth_error (starts x) n = Some (k, s0) -> k = n /\ s0 = nth n (launch x) 0))
+  (states (step_st c) (init c) evs).
 Proof.
-  assert (E : forall y k o, res (finish i now y k o) = res y).
-  { intros y k o. unfold finish. destruct (ph y); try reflexivity; destruct o; try reflexivity;
-      destruct (closed y); reflexivity. }
-  induction n as [|n IH]; intros x; cbn [run_tasks]; [reflexivity|].
-  rewrite IH. unfold start_attempt.
-  destruct (gate x (length (starts x))); [rewrite E|]; reflexivity.
+  intros Hm. eapply Forall_impl; [|apply reach; exact Hm]. intros s H. cbv beta zeta.
+  destruct (H i) as (B & _).
+  pose proof (s_cnt _ _ _ _ _ _ B) as L1.
+  split; [lia|]. split; [apply (s_nd _ _ _ _ _ _ B)|]. split; [apply (w_nd _ _ _ _ _ _ B)|]. split.
+  - intros k Hk. destruct (w_in _ _ _ _ _ _ B k Hk) as [E1 E2]. split; [exact E1|]. split; [exact E2|].
+    intros Hin. apply in_map_iff in Hin. destruct Hin as [[k' s0] [E Hin]]. cbn in E. subst k'.
+    destruct (s_in _ _ _ _ _ _ B k s0 Hin) as (_ & E & _). contradiction.
+  - intros G.
+    assert (Ew : waiting (calls s i) = []).
+    { destruct (waiting (calls s i)) as [|k0 l] eqn:Ew; [reflexivity|exfalso].
+      destruct (w_in _ _ _ _ _ _ B k0) as [_ E]; [rewrite Ew; left; reflexivity|].
+      rewrite (g_off _ _ _ _ _ _ B G k0) in E. discriminate. }
+    split; [exact Ew|]. rewrite Ew in L1. cbn in L1. split; [lia|]. apply (g_seq _ _ _ _ _ _ B G).
+Qed.
+
+Lemma run_tasks_starts_mono i now n : forall x e, In e (starts x) -> In e (starts (run_tasks i now n x)).
+Proof.
+  induction n as [|n IH]; intros x e He; cbn [run_tasks]; [exact He|].
+  apply IH. destruct (launch_task_frame i now x) as (_ & _ & _ & E). rewrite E.
+  destruct (Nat.eqb (length (launch x)) 0 || rdy x (length (launch x))); [|exact He].
+  apply in_or_app. left. exact He.
 Qed.
 
 Lemma spacing_prompt c evs i : (1 <= maxa c)%nat ->
-  let s := fold_left (step_st c) evs init in
+  let s := fold_left (step_st c) evs (init c) in
   let x := calls s i in
-  ph x = Latency -> (length (starts x) < maxa c)%nat -> dline x <= now s ->
+  ph x = Latency -> (length (launch x) < maxa c)%nat -> dline x <= now s ->
   r (snd (step c s (Poll i))) = 0 ->
   let x' := calls (step_st c s (Poll i)) i in
-  (length (starts x) < length (starts x'))%nat /\ nth (length (starts x)) (starts x') 0 = now s.
+  (length (launch x) < length (launch x'))%nat /\ nth (length (launch x)) (launch x') 0 = now s /\
+  (rdy x (length (launch x)) = true -> In (length (launch x), now s) (starts x')).
 Proof.
   intros Hm s x P Q D. subst x.
   destruct (reach_last c evs Hm i) as (B & _). fold s in B.
-  pose proof (a_len _ _ _ _ _ B) as L1. rewrite Nat.add_0_r in L1.
+  pose proof (a_len _ _ _ _ _ _ B) as L1. rewrite Nat.add_0_r in L1.
+  pose proof (a_pos _ _ _ _ _ _ B (or_introl P)) as Lp.
   unfold step_st, step, poll_call, poll_body. rewrite P. unfold poll_latency.
   pose proof (consume_lat_spec (maxa c) (queue (calls s i)) (cons (calls s i)) (errs (calls s i)) (perr (calls s i))) as S.
   destruct (consume_lat (maxa c) (queue (calls s i)) (cons (calls s i)) (errs (calls s i)) (perr (calls s i)))
@@ -1060,13 +1396,34 @@ Proof.
   - pose proof (fire_spec c (now s) (maxa c) (sp (calls s i)) (dline (calls s i)) ltac:(lia)) as F.
     destruct (fire c (now s) (maxa c) (sp (calls s i)) (dline (calls s i))) as [s' dl'].
     destruct F as (F1 & _ & F3 & _).
-    cbn [snd fst r calls sp starts]. intros _. rewrite upd_same, run_tasks_starts. cbn [starts].
+    cbn [snd fst r calls sp launch]. intros _. rewrite upd_same.
     assert (Hs : (sp (calls s i) < s')%nat).
     { destruct (Nat.eq_dec s' (sp (calls s i))) as [E|E]; [|lia].
       destruct (F3 E) as [_ G]. specialize (G ltac:(lia)). lia. }
-    split.
-    + rewrite app_length, repeat_length. lia.
-    + apply nth_app_repeat; lia.
+    split; [|split].
+    + rewrite run_tasks_launch. cbn [launch]. rewrite app_length, repeat_length. lia.
+    + rewrite run_tasks_launch. cbn [launch]. apply nth_app_repeat; lia.
+    + intros R. destruct (s' - length (launch (calls s i)))%nat as [|d] eqn:Ed; [lia|].
+      cbn [run_tasks]. apply run_tasks_starts_mono.
+      match goal with |- In _ (starts (launch_task i (now s) ?y)) =>
+        destruct (launch_task_frame i (now s) y) as (_ & _ & _ & E) end.
+      rewrite E. cbn [launch rdy starts]. rewrite R, orb_true_r.
+      apply in_or_app. right. left. reflexivity.
+Qed.
+
+Lemma ready_starts c evs i k : (1 <= maxa c)%nat ->
+  let s := fold_left (step_st c) evs (init c) in
+  In k (waiting (calls s i)) ->
+  In (k, now s) (starts (calls (step_st c s (Ready i k)) i)).
+Proof.
+  intros Hm s Hk.
+  destruct (reach_last c evs Hm i) as (B & _). fold s in B.
+  destruct (w_in _ _ _ _ _ _ B k Hk) as [_ R].
+  unfold step_st, step. cbn [fst calls]. rewrite upd_same. unfold ready_call. rewrite R.
+  apply mem_In in Hk. rewrite Hk.
+  match goal with |- In _ (starts (call_inner i (now s) ?y k)) =>
+    destruct (call_inner_frame i (now s) y k) as (_ & _ & E & _) end.
+  rewrite E. apply in_or_app. right. left. reflexivity.
 Qed.
 
 Lemma poll_first_ok c i now x :
@@ -1091,11 +1448,11 @@ Proof.
       * rewrite Hq, (Hfind pre m rest Hpre R2). split; [|intros E; discriminate].
         intros k v0 E. injection E as E. subst m r0 v1. cbn. repeat split.
       * assert (Hrest : rest = []).
-        { pose proof (dlog_len _ _ _ _ _ B) as L1. pose proof (a_len _ _ _ _ _ B) as L2.
-          pose proof (a_max _ _ _ _ _ B) as L3.
-          destruct (c_lat _ _ _ _ _ B P) as (Le & _).
+        { pose proof (dlog_len _ _ _ _ _ _ B) as L1. pose proof (a_len _ _ _ _ _ _ B) as L2.
+          pose proof (a_max _ _ _ _ _ _ B) as L3. pose proof (s_cnt _ _ _ _ _ _ B) as L5.
+          destruct (c_lat _ _ _ _ _ _ B P) as (Le & _).
           assert (L4 : length (dlog x) = length (cons x ++ queue x)).
-          { rewrite <- (c_log _ _ _ _ _ B), map_length. reflexivity. }
+          { rewrite <- (c_log _ _ _ _ _ _ B), map_length. reflexivity. }
           rewrite Hq, !app_length in L4. cbn [length] in L4.
           destruct rest; [reflexivity|cbn [length] in L4; lia]. }
         subst rest. rewrite Hq.
@@ -1105,7 +1462,7 @@ Proof.
       destruct (fire c now (maxa c) (sp x) (dline x)) as [s' dl']. cbn [fst snd].
       split; [intros k v0 E; discriminate|intros _; lia].
   - unfold poll_drain.
-    pose proof (consume_drain_spec (queue x) (cons x) (errs x) (perr x) (c_drn _ _ _ _ _ B P)) as S.
+    pose proof (consume_drain_spec (queue x) (cons x) (errs x) (perr x) (c_drn _ _ _ _ _ _ B P)) as S.
     destruct (consume_drain (queue x) (cons x) (errs x) (perr x)) as [r0 v1 cs rest e pe|cs e pe].
     + cbn [fst snd]. rewrite run_tasks_res. cbn [res resolve].
       destruct S as (pre & m & Hq & Hcs & Hpre & R1 & R2 & R3).
@@ -1117,7 +1474,7 @@ Proof.
 Qed.
 
 Lemma first_success_wins c evs i : (1 <= maxa c)%nat ->
-  let s := fold_left (step_st c) evs init in
+  let s := fold_left (step_st c) evs (init c) in
   let x := calls s i in
   ph x = Latency \/ ph x = Drain ->
   let o := snd (step c s (Poll i)) in
@@ -1135,8 +1492,8 @@ Proof.
   cbn [fst snd r v calls] in *. rewrite upd_same. destruct F as [F1 F2].
   destruct B as (B & _).
   split; [exact F1|]. split; [exact F2|]. split.
-  - split; [apply (c_log _ _ _ _ _ B)|apply (c_err _ _ _ _ _ B Hp)].
-  - apply (d_wk _ _ _ _ _ B Hp).
+  - split; [apply (c_log _ _ _ _ _ _ B)|apply (c_err _ _ _ _ _ _ B Hp)].
+  - apply (d_wk _ _ _ _ _ _ B Hp).
 Qed.
 
 Lemma ok_is_earliest c evs i : (1 <= maxa c)%nat ->
@@ -1144,36 +1501,36 @@ Lemma ok_is_earliest c evs i : (1 <= maxa c)%nat ->
      forall v tau, res x = Some (1, v, tau) ->
        exists k t1, find it_ok (map fst (dlog x)) = Some (k, true, v) /\
                     In ((k, true, v), t1) (dlog x) /\ t1 <= tau /\ tau <= now s)
-  (states (step_st c) init evs).
+  (states (step_st c) (init c) evs).
 Proof.
-  intros Hm. eapply Forall_impl; [|apply reach; exact Hm]. intros s H. cbn.
+  intros Hm. eapply Forall_impl; [|apply reach; exact Hm]. intros s H. cbv beta zeta.
   destruct (H i) as (B & _). intros v tau E.
-  destruct (e_ok _ _ _ _ _ B v tau E) as (k & t1 & E1 & E2 & E3).
-  destruct (e_res _ _ _ _ _ B _ _ _ E) as [_ E4].
+  destruct (e_ok _ _ _ _ _ _ B v tau E) as (k & t1 & E1 & E2 & E3).
+  destruct (e_res _ _ _ _ _ _ B _ _ _ E) as [_ E4].
   exists k, t1. repeat split; assumption.
 Qed.
 
 Lemma all_failed_only_if c evs i : (1 <= maxa c)%nat ->
   Forall (fun s => let x := calls s i in
      forall e tau, res x = Some (3, e, tau) ->
-       length (starts x) = maxa c /\
-       (forall k, (k < maxa c)%nat -> exists o, gate x k = Some o /\ o <> OOk /\
-           (o = OErr -> exists tk, In ((k, false, val i k), tk) (dlog x) /\ tk <= tau)) /\
+       length (launch x) = maxa c /\ length (starts x) = maxa c /\
+       (forall n, (n < maxa c)%nat -> exists o, gate x n = Some o /\ o <> OOk /\
+           (o = OErr -> exists k tk, In ((k, false, val i n), tk) (dlog x) /\ tk <= tau)) /\
        (latency_mode c = true -> (1 < maxa c)%nat ->
-           e = val i 0 /\ forall k, (k < maxa c)%nat -> gate x k = Some OErr) /\
+           e = val i 0 /\ forall n, (n < maxa c)%nat -> gate x n = Some OErr) /\
        (latency_mode c = false \/ maxa c = 1%nat ->
            exists k tk rest, dlog x = ((k, false, e), tk) :: rest) /\
        (maxa c = 1%nat -> e = val i 0))
-  (states (step_st c) init evs).
+  (states (step_st c) (init c) evs).
 Proof.
-  intros Hm. eapply Forall_impl; [|apply reach; exact Hm]. intros s H. cbn.
+  intros Hm. eapply Forall_impl; [|apply reach; exact Hm]. intros s H. cbv beta zeta.
   destruct (H i) as (B & _). intros e tau E.
-  destruct (e_fail _ _ _ _ _ B e tau E) as (F1 & F2 & F3 & F4).
-  pose proof (a_len _ _ _ _ _ B) as L1. rewrite Nat.add_0_r in L1.
-  split; [lia|]. split; [exact F2|]. split; [exact F3|]. split; [exact F4|].
+  destruct (e_fail _ _ _ _ _ _ B e tau E) as (F0 & F1 & F2 & F3 & F4).
+  split; [exact F0|]. split; [exact F1|]. split; [exact F2|]. split; [exact F3|]. split; [exact F4|].
   intros M. destruct (F4 (or_intror M)) as (k & tk & rest & Ed).
-  destruct (c_ent _ _ _ _ _ B (k, false, e) tk) as (E1 & _ & E3 & _); [rewrite Ed; left; reflexivity|].
-  cbn in E1, E3. replace k with 0%nat in E3 by lia. exact E3.
+  destruct (c_ent _ _ _ _ _ _ B (k, false, e) tk) as (n0 & s0 & E1 & _ & E3 & _); [rewrite Ed; left; reflexivity|].
+  cbn in E3. assert (n0 < length (starts (calls s i)))%nat by (apply nth_error_Some; congruence).
+  replace n0 with 0%nat in E3 by lia. exact E3.
 Qed.
 
 Lemma no_result_lost c evs i : (1 <= maxa c)%nat ->
@@ -1181,46 +1538,60 @@ Lemma no_result_lost c evs i : (1 <= maxa c)%nat ->
      map fst (dlog x) = cons x ++ queue x /\
      NoDup (map att (dlog x)) /\
      (forall m tau, In (m, tau) (dlog x) ->
-        (it_att m < length (starts x))%nat /\ gate x (it_att m) = Some (out_of (it_ok m)) /\
-        it_val m = val i (it_att m) /\ nth (it_att m) (starts x) 0 <= tau <= now s) /\
-     (pending x -> forall k o, (k < length (starts x))%nat -> gate x k = Some o -> o <> OPanic ->
-        In k (map att (dlog x))) /\
+        exists n s0, nth_error (starts x) n = Some (it_att m, s0) /\
+                     gate x n = Some (out_of (it_ok m)) /\ it_val m = val i n /\ s0 <= tau <= now s) /\
+     (pending x -> forall n k s0 o, nth_error (starts x) n = Some (k, s0) -> gate x n = Some o ->
+        o <> OPanic -> In k (map att (dlog x))) /\
      (pending x -> Forall (fun m => it_ok m = false) (cons x)) /\
      (pending x -> queue x <> [] -> woken x = true) /\
      (ph x = Drain -> closed x = true -> woken x = true))
-  (states (step_st c) init evs).
+  (states (step_st c) (init c) evs).
 Proof.
-  intros Hm. eapply Forall_impl; [|apply reach; exact Hm]. intros s H. cbn.
+  intros Hm. eapply Forall_impl; [|apply reach; exact Hm]. intros s H. cbv beta zeta.
   destruct (H i) as (B & Hd & Hc & _).
-  split; [apply (c_log _ _ _ _ _ B)|]. split; [apply (c_nd _ _ _ _ _ B)|].
-  split; [apply (c_ent _ _ _ _ _ B)|]. split; [exact Hd|].
-  split; [apply (c_err _ _ _ _ _ B)|]. split; [apply (d_wk _ _ _ _ _ B)|exact Hc].
+  split; [apply (c_log _ _ _ _ _ _ B)|]. split; [apply (c_nd _ _ _ _ _ _ B)|].
+  split; [apply (c_ent _ _ _ _ _ _ B)|]. split; [exact Hd|].
+  split; [apply (c_err _ _ _ _ _ _ B)|]. split; [apply (d_wk _ _ _ _ _ _ B)|exact Hc].
 Qed.
 
 (* ================= non-vacuity ================= *)
-Definition cfg_fixed10 : cfg := {| maxa := 2; dcfg := Fixed 10 |}.
+Definition cfg_fixed10 : cfg := {| maxa := 2; dcfg := Fixed 10; gated := false |}.
+Definition cfg_fixed10g : cfg := {| maxa := 2; dcfg := Fixed 10; gated := true |}.
 (* the reproducer of the upstream defect: hedge fails at once, primary succeeds at 100 ms *)
 Definition evs_repro : list ev :=
   [Poll 0; Complete 0 1 OErr; Advance 10; Poll 0; Advance 1; Poll 0; Advance 89; Complete 0 0 OOk; Poll 0].
 Example ex_repro :
-  let x := calls (fold_left (step_st cfg_fixed10) evs_repro init) 0 in
-  res x = Some (1, val 0 0, 100) /\ starts x = [0; 10] /\
+  let x := calls (fold_left (step_st cfg_fixed10) evs_repro (init cfg_fixed10)) 0 in
+  res x = Some (1, val 0 0, 100) /\ launch x = [0; 10] /\ starts x = [(0%nat, 0); (1%nat, 10)] /\
   dlog x = [((1%nat, false, val 0 1), 10); ((0%nat, true, val 0 0), 100)].
 Proof. vm_compute. repeat split. Qed.
 
-(* hypotheses of spacing_prompt: the timer is due, the poll stays pending and starts the hedge *)
-Example ex_prompt :
-  let s := fold_left (step_st cfg_fixed10) [Poll 0; Advance 10] init in
+(* back-pressure: the hedge is launched at 10 ms, its clone is not ready; the primary succeeds
+   at 15 ms and the call resolves at the next poll; the hedge makes its call when readied *)
+Example ex_backpressure :
+  let s := fold_left (step_st cfg_fixed10g) [Poll 0; Advance 10; Poll 0; Advance 5; Complete 0 0 OOk]
+                     (init cfg_fixed10g) in
   let x := calls s 0 in
-  ph x = Latency /\ (length (starts x) < maxa cfg_fixed10)%nat /\ dline x = now s /\ woken x = true /\
-  r (snd (step cfg_fixed10 s (Poll 0))) = 0 /\
-  starts (calls (step_st cfg_fixed10 s (Poll 0)) 0) = [0; 10].
+  ph x = Latency /\ launch x = [0; 10] /\ waiting x = [1%nat] /\ starts x = [(0%nat, 0)] /\
+  find it_ok (queue x) = Some (0%nat, true, val 0 0) /\ woken x = true /\
+  snd (step cfg_fixed10g s (Poll 0)) = {| r := 1; v := val 0 0 |} /\
+  starts (calls (step_st cfg_fixed10g (step_st cfg_fixed10g s (Poll 0)) (Ready 0 1)) 0)
+    = [(0%nat, 0); (1%nat, 15)].
+Proof. vm_compute. repeat split. Qed.
+
+(* hypotheses of spacing_prompt: the timer is due, the poll stays pending and launches the hedge *)
+Example ex_prompt :
+  let s := fold_left (step_st cfg_fixed10) [Poll 0; Advance 10] (init cfg_fixed10) in
+  let x := calls s 0 in
+  ph x = Latency /\ (length (launch x) < maxa cfg_fixed10)%nat /\ dline x = now s /\ woken x = true /\
+  r (snd (step cfg_fixed10 s (Poll 0))) = 0 /\ rdy x 1 = true /\
+  starts (calls (step_st cfg_fixed10 s (Poll 0)) 0) = [(0%nat, 0); (1%nat, 10)].
 Proof. vm_compute. repeat split. apply le_n. Qed.
 
 (* hypotheses of first_success_wins: pending with an error and then a success queued *)
 Example ex_first_ok :
-  let c := {| maxa := 3; dcfg := Immediate |} in
-  let s := fold_left (step_st c) [Poll 0; Complete 0 2 OErr; Complete 0 1 OOk; Complete 0 0 OOk] init in
+  let c := {| maxa := 3; dcfg := Immediate; gated := false |} in
+  let s := fold_left (step_st c) [Poll 0; Complete 0 2 OErr; Complete 0 1 OOk; Complete 0 0 OOk] (init c) in
   let x := calls s 0 in
   ph x = Drain /\ find it_ok (queue x) = Some (1%nat, true, val 0 1) /\
   snd (step c s (Poll 0)) = {| r := 1; v := val 0 1 |}.
@@ -1228,23 +1599,27 @@ Proof. vm_compute. repeat split. Qed.
 
 (* all attempts fail in latency mode with dynamic delays [0; 50]: the primary's error is carried *)
 Example ex_all_failed :
-  let c := {| maxa := 3; dcfg := Dynamic [0; 50] |} in
+  let c := {| maxa := 3; dcfg := Dynamic [0; 50]; gated := false |} in
   let x := calls (fold_left (step_st c)
                    [Poll 0; Advance 49; Poll 0; Advance 1; Poll 0; Complete 0 1 OErr; Complete 0 2 OErr;
-                    Poll 0; Complete 0 0 OErr; Poll 0] init) 0 in
-  res x = Some (3, val 0 0, 50) /\ starts x = [0; 0; 50].
+                    Poll 0; Complete 0 0 OErr; Poll 0] (init c)) 0 in
+  res x = Some (3, val 0 0, 50) /\ launch x = [0; 0; 50].
 Proof. vm_compute. repeat split. Qed.
 
-(* parallel mode: the carried error is the first one received (here the hedge's) *)
+(* parallel mode with back-pressure: clones get ready out of order, the carried error is the
+   first one received (inner call 1, made by attempt task 2) *)
 Example ex_all_failed_parallel :
-  let c := {| maxa := 2; dcfg := Immediate |} in
-  let x := calls (fold_left (step_st c) [Poll 0; Complete 0 1 OErr; Complete 0 0 OErr; Poll 0] init) 0 in
-  res x = Some (3, val 0 1, 0) /\ starts x = [0; 0].
+  let c := {| maxa := 3; dcfg := Immediate; gated := true |} in
+  let x := calls (fold_left (step_st c)
+                   [Poll 0; Ready 0 2; Complete 0 1 OErr; Ready 0 1; Complete 0 2 OErr; Complete 0 0 OErr; Poll 0]
+                   (init c)) 0 in
+  res x = Some (3, val 0 1, 0) /\ launch x = [0; 0; 0] /\ map fst (starts x) = [0%nat; 2%nat; 1%nat].
 Proof. vm_compute. repeat split. Qed.
 
 (* the primary succeeds before the first delay has elapsed: exactly one inner call *)
 Example ex_primary_fast :
-  let x := calls (fold_left (step_st cfg_fixed10) [Poll 0; Advance 5; Complete 0 0 OOk; Advance 20; Poll 0] init) 0 in
-  In ((0%nat, true, val 0 0), 5) (dlog x) /\ 5 < t0 x + delay cfg_fixed10 1 /\ starts x = [0] /\
+  let x := calls (fold_left (step_st cfg_fixed10) [Poll 0; Advance 5; Complete 0 0 OOk; Advance 20; Poll 0]
+                            (init cfg_fixed10)) 0 in
+  In ((0%nat, true, val 0 0), 5) (dlog x) /\ 5 < t0 x + delay cfg_fixed10 1 /\ launch x = [0] /\
   res x = Some (1, val 0 0, 25).
 Proof. vm_compute. repeat split. left. reflexivity. Qed.
